@@ -14,6 +14,7 @@ from dataclasses import dataclass, field
 
 from .core import src, parent, AnalysisError
 from .resolve import Program
+from . import units as U
 
 RANK, AXIS, DATA, CLOCK, FS, HASH = "RANK", "AXIS", "DATA", "CLOCK", "FS", "HASH"
 NONUNIFORM = {RANK, AXIS, DATA, CLOCK, HASH}      # FS is uniform under the shared-file-system assumption
@@ -47,6 +48,52 @@ EXEMPT_GUARDS = {
     ("self._buffer_size == 0", "transpose"):
         "zero only on the plot-only rank, whose communicators are singletons (precondition p <= n)",
 }
+
+
+# ---------------------------------------------------------------------------------------------------------------------------
+# AUDIT (label domain).  A label set is a MAY description: "the value can differ between ranks through these sources".  Two more
+# elements make the domain three-valued:
+#   "!L"  (L one of NONUNIFORM): the label L was ESTABLISHED: it comes from an explicit source the engine models (Get_rank, a
+#         clock, the block geometry read from an object known to be a layout / grid, the iteration order of a set of strings)
+#         through constructs the engine models.  L without "!L" is a label attached by a heuristic (an attribute called `size`
+#         read from an object of unknown type, hash() of a value of unknown type, a random draw in a unit that seeds a generator,
+#         a trip count read off the CONTENT labels of an iterable): it says "may vary", it does not establish it.
+#   UNK   the value went through a construct the engine does not model (a call it cannot resolve and does not know, an attribute
+#         of an object of unknown type with no assignment in the class, star-expanded arguments, a `match` statement, ...): nothing
+#         is known about its variation.
+# Verdicts are taken with decide(): VIOLATED needs an established label, HOLDS needs the absence of every non-uniform label and
+# of UNK, everything else is UNDECIDED.  nonuniform() keeps its meaning (labels of NONUNIFORM, established or not) for the
+# callers in props/C06.py.
+# ---------------------------------------------------------------------------------------------------------------------------
+UNK = "UNK"
+
+
+def S(label) -> set:
+    """an established label"""
+    return {label, "!" + label}
+
+
+def established(labels) -> set:
+    return {l for l in labels if l in NONUNIFORM and ("!" + l) in labels}
+
+
+def decide(labels):
+    """True: rank-uniform; False: established to depend on the rank; None: not decided (heuristic labels / unmodelled constructs)"""
+    if established(labels):
+        return False
+    if UNK in labels or any(l in NONUNIFORM for l in labels):
+        return None
+    return True
+
+
+def show(labels) -> list:
+    """labels as printed in messages and facts (the markers of establishment are internal)"""
+    return sorted(l for l in labels if not l.startswith("!"))
+
+
+def weaken(labels) -> set:
+    """the same labels, none of them established"""
+    return {l for l in labels if not l.startswith("!")}
 
 
 def is_comm_expr(e) -> bool:
@@ -88,8 +135,10 @@ class FuncInfo:
         self.callee_sites: list[tuple[ast.Call, list]] = []   # calls to collective functions
         self.is_collective = False
         self.required_uniform: dict[str, str] = {}      # param -> reason
+        self.required_strong: set = set()               # those whose influence on collectives is established
         self.return_labels: set = set()
         self.labels_at: dict[ast.AST, set] = {}
+        self.outer = None                                # enclosing FuncInfo of a nested function
 
 
 class SPMD:
@@ -106,6 +155,15 @@ class SPMD:
                 cls = q.split(".")[0] if "." in q and q.split(".")[0] in m.classes() else None
                 self.funcs[(rel, q)] = FuncInfo(rel, q, n, cls)
         self._by_node = {fi.node: fi for fi in self.funcs.values()}
+        for fi in self.funcs.values():
+            o = self._owner(fi.node)
+            if isinstance(o, (ast.FunctionDef, ast.AsyncFunctionDef)) and o in self._by_node:
+                fi.outer = self._by_node[o]
+                if fi.cls is None:
+                    fi.cls = fi.outer.cls
+        # classes whose size / shape / starts / ... describe the rank's own block: those of the layout and grid units
+        self.geometry_classes = {c for c, (rel, _) in prog.classes.items() if rel in (U.LAYOUT, U.GRID)}
+        self.attr_struct = {}
         self._find_collectives()
         self._class_attr_labels()
 
@@ -141,7 +199,7 @@ class SPMD:
 
     def _owner(self, node):
         p = parent(node)
-        while p is not None and not isinstance(p, (ast.FunctionDef, ast.Lambda)):
+        while p is not None and not isinstance(p, (ast.FunctionDef, ast.AsyncFunctionDef, ast.Lambda)):
             p = parent(p)
         return p
 
@@ -154,8 +212,7 @@ class SPMD:
             lst = []
             for c in ast.walk(fi.node):
                 if isinstance(c, ast.Call) and self._owner(c) is fi.node:
-                    tg = self.prog.resolve(c, fi.rel)
-                    tg = [(r, q) for r, q, n in tg if (r, q) in self.funcs]
+                    tg = self.resolve(c, fi)
                     if tg:
                         lst.append((c, tg))
             self.calls[key] = lst
@@ -176,10 +233,18 @@ class SPMD:
     # ---------------------------------------------------------------- labels
     def _class_attr_labels(self):
         for _ in range(4):
+            before = {k: set(v) for k, v in self.class_attr.items()}
             for fi in self.funcs.values():
                 if fi.cls is None:
                     continue
                 LabelFlow(self, fi, collect_attrs=True).run()
+            # summaries computed while the attribute labels were still incomplete are not kept
+            for fi in self.funcs.values():
+                fi._ret_done = False
+            for k in ("_ever", "_modname", "_flat"):
+                self.__dict__.pop(k, None)
+            if before == self.class_attr:
+                break
 
     def attr_label(self, cls, attr):
         out = set()
@@ -198,16 +263,484 @@ class SPMD:
         fi = self.funcs[key]
         if getattr(fi, "_ret_done", False):
             return fi.return_labels
-        if getattr(fi, "_ret_busy", False) or depth > 6:
-            return set()
+        if getattr(fi, "_ret_busy", False):
+            # a recursive call: the summary computed so far (the flow is run a second time when this happened, so that the labels
+            # of one more unfolding are in)
+            fi._ret_recursive = True
+            return set(fi.return_labels)
+        if depth > 6:
+            return {UNK}                      # AUDIT: call depth exhausted: nothing is known about what the callee returns
         fi._ret_busy = True
-        lf = LabelFlow(self, fi, depth=depth + 1)
-        lf.run()
-        fi.return_labels = lf.ret
-        fi.ret_elems = lf.ret_elems if lf._ret_shapes and -1 not in lf._ret_shapes and len(lf._ret_shapes) == 1 else None
+        fi._ret_recursive = False
+        fi.return_labels = set()
+        for _ in range(3):
+            lf = LabelFlow(self, fi, depth=depth + 1)
+            lf.run()
+            grown = (lf.ret | lf._generator_labels(fi, lf)) - fi.return_labels
+            fi.return_labels = fi.return_labels | lf.ret | lf._generator_labels(fi, lf)
+            if not fi._ret_recursive or not grown:
+                break
+        fi.yield_elems = lf.yield_elems if lf.yield_elems else None
+        fi.yield_len = set(lf.yield_len) if lf._generator_labels(fi, lf) and UNK not in lf._generator_labels(fi, lf) - lf.yielded else None
+        fi.ret_elems = lf.ret_elems if lf._ret_shapes and -1 not in lf._ret_shapes and len(lf._ret_shapes) == 1 and \
+            not fi._ret_recursive else None
         fi._ret_busy = False
         fi._ret_done = True
         return fi.return_labels
+
+    # ---------------------------------------------------------------- program facts used by the label flow
+    def resolve(self, call, fi):
+        """callee candidates of a call inside `fi`: the program index, plus functions defined inside the enclosing function(s)
+        (closures) called by their bare name -> list of keys of self.funcs"""
+        cache = self.__dict__.setdefault("_res_cache", {})
+        if call not in cache:
+            cache[call] = self._resolve(call, fi)
+        return list(cache[call])
+
+    def _resolve(self, call, fi):
+        f = call.func
+        if isinstance(f, ast.Name):
+            o = fi
+            while o is not None:
+                key = (o.rel, o.qual + "." + f.id)
+                if key in self.funcs and self.funcs[key].outer is o:
+                    # the name must not be rebound to something else in that function
+                    stores = [n for n in ast.walk(o.node) if isinstance(n, ast.Name) and n.id == f.id and
+                              isinstance(n.ctx, ast.Store) and self._owner(n) is o.node]
+                    defs = [n for n in ast.walk(o.node) if isinstance(n, (ast.FunctionDef, ast.AsyncFunctionDef)) and n.name == f.id
+                            and self._owner(n) is o.node]
+                    return [key] if not stores and len(defs) == 1 else []
+                if f.id in self._local_names(o):
+                    return []                 # a local of that name that is not a nested def: a computed callee
+                o = o.outer
+        tg = self.prog.resolve(call, fi.rel)
+        return [(r, q) for r, q, n in tg if (r, q) in self.funcs]
+
+    def _local_names(self, fi):
+        c = self.__dict__.setdefault("_locals_cache", {})
+        if fi.node not in c:
+            names = {a.arg for a in ast.walk(fi.node.args) if isinstance(a, ast.arg)}
+            for n in ast.walk(fi.node):
+                if isinstance(n, ast.Name) and isinstance(n.ctx, ast.Store) and self._owner(n) is fi.node:
+                    names.add(n.id)
+            c[fi.node] = names
+        return c[fi.node]
+
+    def _stub_flow(self, rel):
+        """a label flow with no locals, to label an expression evaluated at module / class level of `rel`"""
+        c = self.__dict__.setdefault("_stubs", {})
+        if rel not in c:
+            node = ast.parse("def _module_level_():\n    pass").body[0]
+            c[rel] = LabelFlow(self, FuncInfo(rel, "<module>", node, None), depth=3)
+        return c[rel]
+
+    def module_bindings(self, rel):
+        c = self.__dict__.setdefault("_modbind", {})
+        if rel not in c:
+            b = {}
+            tree = self.prog.mods[rel].tree
+
+            def walk(body, cond):
+                for st in body:
+                    if isinstance(st, (ast.Import, ast.ImportFrom)):
+                        for a in st.names:
+                            b.setdefault((a.asname or a.name).split(".")[0], []).append(("import", st, a))
+                    elif isinstance(st, (ast.FunctionDef, ast.AsyncFunctionDef, ast.ClassDef)):
+                        b.setdefault(st.name, []).append(("def", st, None))
+                    elif isinstance(st, ast.Assign):
+                        for t in st.targets:
+                            if isinstance(t, ast.Name):
+                                b.setdefault(t.id, []).append(("assign", st, st.value))
+                            else:
+                                for x in ast.walk(t):
+                                    if isinstance(x, ast.Name) and isinstance(x.ctx, ast.Store):
+                                        b.setdefault(x.id, []).append(("other", st, None))
+                    elif isinstance(st, ast.AnnAssign) and isinstance(st.target, ast.Name) and st.value is not None:
+                        b.setdefault(st.target.id, []).append(("assign", st, st.value))
+                    elif isinstance(st, (ast.If, ast.Try, ast.With)):
+                        for f_ in ("body", "orelse", "finalbody"):
+                            walk(getattr(st, f_, []) or [], True)
+                        for h in getattr(st, "handlers", []) or []:
+                            walk(h.body, True)
+                    else:
+                        for x in ast.walk(st):
+                            if isinstance(x, ast.Name) and isinstance(x.ctx, ast.Store):
+                                b.setdefault(x.id, []).append(("other", st, None))
+            walk(tree.body, False)
+            c[rel] = b
+        return c[rel]
+
+    def module_name(self, rel, name, depth=0):
+        """labels of a module-level name, or None when the module does not bind it"""
+        bs = self.module_bindings(rel).get(name)
+        if not bs:
+            return None
+        cache = self.__dict__.setdefault("_modname", {})
+        if (rel, name) in cache:
+            return set(cache[(rel, name)])
+        cache[(rel, name)] = {UNK}            # while it is being computed (cyclic definitions)
+        out = set()
+        for kind, st, v in bs:
+            if kind in ("import", "def"):
+                continue
+            if kind == "other" or depth > 6:
+                out |= {UNK}
+                continue
+            out |= self._stub_flow(rel).expr(v, {})
+        # rebound from inside a function through `global`
+        for n in ast.walk(self.prog.mods[rel].tree):
+            if isinstance(n, ast.Global) and name in n.names:
+                out |= {UNK}
+        cache[(rel, name)] = out
+        return set(out)
+
+    def _mutated_in(self, tree, text):
+        for n in ast.walk(tree):
+            if isinstance(n, (ast.Subscript, ast.Attribute)) and isinstance(n.ctx, (ast.Store, ast.Del)) and src(n.value) == text:
+                return True
+            if isinstance(n, ast.Call) and isinstance(n.func, ast.Attribute) and src(n.func.value) == text and \
+                    n.func.attr in ("append", "extend", "insert", "add", "update", "remove", "pop", "clear", "setdefault", "popitem", "sort",
+                                    "reverse", "discard"):
+                return True
+            if isinstance(n, ast.AugAssign) and src(n.target) == text:
+                return True
+        return False
+
+    def module_const(self, rel, name):
+        """the value node of a module-level name bound exactly once and never changed in place in the module, else None"""
+        cache = self.__dict__.setdefault("_mc_cache", {})
+        if (rel, name) not in cache:
+            cache[(rel, name)] = self._module_const(rel, name)
+        return cache[(rel, name)]
+
+    def _module_const(self, rel, name):
+        bs = self.module_bindings(rel).get(name)
+        if not bs or len(bs) != 1 or bs[0][0] != "assign":
+            return None
+        tree = self.prog.mods[rel].tree
+        if self._mutated_in(tree, name) or any(isinstance(n, ast.Global) and name in n.names for n in ast.walk(tree)):
+            return None
+        return bs[0][2]
+
+    def class_const(self, cls, attr):
+        """the value node of a class attribute bound exactly once (class body or `self.attr = ...`) in the hierarchy and never changed
+        in place, else None"""
+        cache = self.__dict__.setdefault("_cc_cache", {})
+        if (cls, attr) not in cache:
+            cache[(cls, attr)] = self._class_const(cls, attr)
+        return cache[(cls, attr)]
+
+    def _class_const(self, cls, attr):
+        vals = []
+        for c in self.prog.mro(cls) + self.prog.subclasses(cls):
+            if c not in self.prog.classes:
+                continue
+            rel, node = self.prog.classes[c]
+            for st in node.body:
+                if isinstance(st, ast.Assign) and any(isinstance(t, ast.Name) and t.id == attr for t in st.targets):
+                    vals.append(st.value)
+                elif isinstance(st, ast.AnnAssign) and isinstance(st.target, ast.Name) and st.target.id == attr and st.value is not None:
+                    vals.append(st.value)
+            for n in ast.walk(node):
+                if isinstance(n, ast.Attribute) and n.attr == attr and isinstance(n.ctx, (ast.Store, ast.Del)) and \
+                        isinstance(n.value, ast.Name) and n.value.id in ("self", "cls", c):
+                    p = parent(n)
+                    if isinstance(p, ast.Assign) and len(p.targets) == 1 and p.targets[0] is n:
+                        vals.append(p.value)
+                    else:
+                        return None
+            if self._mutated_in(node, "self." + attr) or self._mutated_in(node, "cls." + attr) or self._mutated_in(node, c + "." + attr):
+                return None
+        return vals[0] if len(vals) == 1 else None
+
+    def outer_name(self, fi, name):
+        """labels of a free name of a nested function: what the enclosing function(s) ever bind it to; None when they do not"""
+        o = fi.outer
+        while o is not None:
+            if name in self._local_names(o) or name in o.params:
+                cache = self.__dict__.setdefault("_ever", {})
+                key = (o.rel, o.qual)
+                if key not in cache:
+                    cache[key] = None                 # busy
+                    lf = LabelFlow(self, o, depth=2)
+                    lf.run()
+                    cache[key] = lf.ever
+                ev = cache[key]
+                if ev is None:
+                    return {UNK}
+                return set(ev.get(name, set())) | ({f"P:{name}"} & set())
+            # a function nested in `o` under that name
+            if (o.rel, o.qual + "." + name) in self.funcs:
+                return set()
+            o = o.outer
+        return None
+
+    def attr_known(self, cls, attr):
+        return any((c, attr) in self.class_attr or (c, "*") in self.class_attr for c in self.prog.mro(cls) + self.prog.subclasses(cls))
+
+    def is_method(self, cls, attr):
+        try:
+            if self.prog.find_method(cls, attr):
+                return True
+        except KeyError:
+            return False
+        for c in self.prog.mro(cls):
+            if c in self.prog.classes:
+                for st in self.prog.classes[c][1].body:
+                    if isinstance(st, (ast.Assign, ast.AnnAssign)):
+                        tg = st.targets if isinstance(st, ast.Assign) else [st.target]
+                        if any(isinstance(t, ast.Name) and t.id == attr for t in tg):
+                            return True
+                    if isinstance(st, ast.ClassDef) and st.name == attr:
+                        return True
+        return False
+
+    def property_labels(self, cls, attr, depth=0):
+        """labels a property adds to those of its receiver, or None when `attr` is not a property of the class"""
+        if cls not in self.prog.classes:
+            return None
+        out, hit = set(), False
+        for r, c, n in self.prog.find_method(cls, attr):
+            if any(src(d) in ("property", "cached_property", "functools.cached_property") for d in n.decorator_list):
+                key = (r, f"{c}.{attr}")
+                if key in self.funcs:
+                    hit = True
+                    rl = self.return_labels(key, depth)
+                    out |= {l for l in rl if not l.startswith("P:")}
+        return out if hit else None
+
+    def attr_only_in_geometry(self, attr):
+        c = self.__dict__.setdefault("_attr_homes", {})
+        if attr not in c:
+            homes = set()
+            for cname, (rel, node) in self.prog.classes.items():
+                for n in ast.walk(node):
+                    if isinstance(n, ast.Attribute) and n.attr == attr and isinstance(n.ctx, ast.Store) and \
+                            isinstance(n.value, ast.Name) and n.value.id == "self":
+                        homes.add(cname)
+                    elif isinstance(n, ast.FunctionDef) and n.name == attr and parent(n) is node:
+                        homes.add(cname)
+                    elif isinstance(n, ast.Assign) and parent(n) is node and any(isinstance(t, ast.Name) and t.id == attr for t in n.targets):
+                        homes.add(cname)
+                    elif isinstance(n, ast.AnnAssign) and parent(n) is node and isinstance(n.target, ast.Name) and n.target.id == attr:
+                        homes.add(cname)
+            # record types made by namedtuple(...)
+            for rel, m in self.prog.mods.items():
+                for n in ast.walk(m.tree):
+                    if isinstance(n, ast.Call) and src(n.func).split(".")[-1] in ("namedtuple", "make_dataclass") and \
+                            any(isinstance(x, ast.Constant) and isinstance(x.value, str) and attr in re.split(r"[,\s]+", x.value)
+                                for a in n.args[1:] for x in ast.walk(a)):
+                        homes.add("<namedtuple>")
+            c[attr] = bool(homes) and homes <= self.geometry_classes
+        return c[attr]
+
+    def attr_kind(self, cls, attr):
+        """is self.<attr> a layout / grid object (True), known to be something else (False: every assignment is an array / display),
+        or unknown (None)"""
+        cache = self.__dict__.setdefault("_ak_cache", {})
+        if (cls, attr) not in cache:
+            cache[(cls, attr)] = self._attr_kind(cls, attr)
+        return cache[(cls, attr)]
+
+    def type_of(self, expr, fn, cls):
+        cache = self.__dict__.setdefault("_to_cache", {})
+        if expr not in cache:
+            cache[expr] = self.prog.type_of(expr, fn, cls)
+        return cache[expr]
+
+    def _attr_kind(self, cls, attr):
+        vals = []
+        for c in self.prog.mro(cls) + self.prog.subclasses(cls):
+            if c not in self.prog.classes:
+                continue
+            for n in ast.walk(self.prog.classes[c][1]):
+                if isinstance(n, ast.Assign):
+                    for t in n.targets:
+                        if isinstance(t, ast.Attribute) and t.attr == attr and isinstance(t.value, ast.Name) and t.value.id == "self":
+                            vals.append(n.value)
+                        elif isinstance(t, (ast.Tuple, ast.List)) and any(isinstance(x, ast.Attribute) and x.attr == attr for x in ast.walk(t)):
+                            return None
+        if not vals:
+            return None
+
+        def arrayish(v):
+            if isinstance(v, (ast.List, ast.Tuple, ast.Dict, ast.ListComp, ast.DictComp, ast.Constant, ast.JoinedStr)):
+                return not (isinstance(v, ast.Constant) and v.value is None) or len(vals) > 1
+            return isinstance(v, ast.Call) and isinstance(v.func, ast.Attribute) and isinstance(v.func.value, ast.Name) and \
+                v.func.value.id in ("np", "numpy")
+        return False if all(arrayish(v) for v in vals) else None
+
+    def unit_seeds(self, rel):
+        c = self.__dict__.setdefault("_seeds", {})
+        if rel not in c:
+            c[rel] = any(isinstance(n, ast.Call) and src(n.func).split(".")[-1] in ("seed", "default_rng", "RandomState", "SeedSequence")
+                         for n in ast.walk(self.prog.mods[rel].tree))
+        return c[rel]
+
+    def import_origin(self, rel, name):
+        """(module, original name) of a name imported with `from module import name [as alias]` in the unit, else None"""
+        for kind, st, a in self.module_bindings(rel).get(name, []):
+            if kind == "import" and isinstance(st, ast.ImportFrom):
+                return ("." * st.level + (st.module or ""), a.name)
+        return None
+
+    def external_kind(self, rel, name):
+        """'pure' when the name is imported from a module whose functions compute from their arguments only: a standard / numerical
+        library module, or a module of the repository outside the analysed units whose source touches neither MPI nor clocks, random
+        numbers, process ids or hashes (checked on the source text).  'unknown' otherwise"""
+        c = self.__dict__.setdefault("_extkind", {})
+        if (rel, name) in c:
+            return c[(rel, name)]
+        kind = "unknown"
+        for k, st, a in self.module_bindings(rel).get(name, []):
+            mod = None
+            if k == "import" and isinstance(st, ast.ImportFrom):
+                mod, level = st.module or "", st.level
+            elif k == "import":
+                mod, level = a.name, 0
+            if mod is None:
+                continue
+            root = mod.split(".")[0]
+            if level == 0 and root in {"math", "argparse", "numpy", "scipy", "itertools", "functools", "collections", "operator", "json",
+                                      "copy", "typing", "abc", "dataclasses", "enum", "warnings", "re", "string", "textwrap", "numbers",
+                                      "fractions", "decimal", "bisect", "heapq", "io", "logging", "cProfile", "pstats", "matplotlib",
+                                      "pathlib", "sys", "h5py", "contextlib"}:
+                kind = "pure"
+                continue
+            # a module of the repository
+            base = (self.prog.repo.root / rel).parent
+            if level > 0:
+                for _ in range(level - 1):
+                    base = base.parent
+            else:
+                base = self.prog.repo.root
+            cands = []
+            parts = [p for p in mod.split(".") if p]
+            p0 = base.joinpath(*parts) if parts else base
+            cands += [p0.with_suffix(".py"), p0 / "__init__.py"]
+            if k == "import" and isinstance(st, ast.ImportFrom):
+                cands += [p0 / (a.name + ".py"), p0 / a.name / "__init__.py"]
+            text = None
+            for cp in cands:
+                try:
+                    if cp.is_file():
+                        text = (text or "") + cp.read_text()
+                except OSError:
+                    pass
+            if text is not None and not re.search(r"mpi4py|\bMPI\b|\brandom\b|\btime\b|getpid|\bhash\(|\bid\(|datetime|urandom|uuid", text):
+                kind = "pure"
+            else:
+                kind = "unknown"
+                break
+        c[(rel, name)] = kind
+        return kind
+
+    def default_labels(self, callee, d):
+        try:
+            return self._stub_flow(callee.rel).expr(d, {})
+        except Exception:
+            return {UNK}
+
+    def record_fields(self, call, fi):
+        """field names, in order, of the record type a call constructs (namedtuple / NamedTuple / dataclass of the unit), else None"""
+        f = call.func
+        nm = f.id if isinstance(f, ast.Name) else None
+        if nm is None:
+            return None
+        c = self.__dict__.setdefault("_records", {})
+        if (fi.rel, nm) not in c:
+            flds = None
+            for n in ast.walk(self.prog.mods[fi.rel].tree):
+                if isinstance(n, ast.Assign) and len(n.targets) == 1 and isinstance(n.targets[0], ast.Name) and n.targets[0].id == nm and \
+                        isinstance(n.value, ast.Call) and src(n.value.func).split(".")[-1] == "namedtuple" and len(n.value.args) >= 2:
+                    spec = n.value.args[1]
+                    if isinstance(spec, ast.Constant) and isinstance(spec.value, str):
+                        flds = [x for x in re.split(r"[,\s]+", spec.value) if x]
+                    elif isinstance(spec, (ast.List, ast.Tuple)) and all(isinstance(x, ast.Constant) and isinstance(x.value, str) for x in spec.elts):
+                        flds = [x.value for x in spec.elts]
+                elif isinstance(n, ast.ClassDef) and n.name == nm:
+                    is_rec = any(src(b).split(".")[-1] == "NamedTuple" for b in n.bases) or \
+                        any(src(d).split("(")[0].split(".")[-1] == "dataclass" for d in n.decorator_list)
+                    if is_rec and not any(isinstance(st, ast.FunctionDef) and st.name in ("__init__", "__new__", "__post_init__") for st in n.body):
+                        flds = [st.target.id for st in n.body if isinstance(st, ast.AnnAssign) and isinstance(st.target, ast.Name)]
+            c[(fi.rel, nm)] = flds
+        return c[(fi.rel, nm)]
+
+    def note_attr_structure(self, cls, attr, lf, value, lab, env):
+        """per-column labels of a `self.attr` bound to a list of rows / records of one arity (kept while every store agrees)"""
+        key = (cls, attr)
+        st = self.attr_struct
+        if value is None:
+            st[key] = None
+            return
+        cols = None
+        if isinstance(value, ast.Name) and env.get("#col:" + value.id):
+            cols = env["#col:" + value.id]
+        elif isinstance(value, ast.ListComp) and isinstance(value.elt, ast.Call):
+            flds = self.record_fields(value.elt, lf.fi)
+            if flds is not None and not any(isinstance(a, ast.Starred) for a in value.elt.args) and \
+                    all(k.arg in flds for k in value.elt.keywords) and len(value.elt.args) <= len(flds):
+                got = {flds[i]: lf.at.get(a, set()) for i, a in enumerate(value.elt.args)}
+                got.update({k.arg: lf.at.get(k.value, set()) for k in value.elt.keywords})
+                cols = tuple(frozenset(got.get(f_, set())) for f_ in flds)
+        elif isinstance(value, ast.ListComp) and isinstance(value.elt, (ast.Tuple, ast.List)) and \
+                not any(isinstance(x, ast.Starred) for x in value.elt.elts):
+            cols = tuple(frozenset(lf.at.get(x, set())) for x in value.elt.elts)
+        if cols is None:
+            st[key] = None
+            return
+        cols = tuple(frozenset(l for l in c_ if not l.startswith("P:")) for c_ in cols)
+        if key in st and st[key] is None:
+            return
+        if key in st and len(st[key]) == len(cols):
+            st[key] = tuple(frozenset(a | b) for a, b in zip(st[key], cols))
+        elif key in st:
+            st[key] = None
+        else:
+            st[key] = cols
+
+    def attr_presence(self, cls, attr):
+        return None
+
+
+    def flat_summary(self, key, depth=0):
+        """the flat collective sequences (operation, root, reduction op - without the communicator, whose name is local to each
+        function) a call of the function can issue, calls expanded; None when that is not a finite set the engine can enumerate
+        (loops around collectives, unresolved structure, recursion)"""
+        cache = self.__dict__.setdefault("_flat", {})
+        if key in cache:
+            return cache[key]
+        if depth > 4 or key not in self.funcs:
+            return None
+        fi = self.funcs[key]
+        if not fi.is_collective:
+            cache[key] = {()}
+            return cache[key]
+        cache[key] = None                     # recursion: not enumerated
+        try:
+            tr = Tracer(self, fi, LabelFlow(self, fi), chk=_NullCheck())
+            out = set()
+            for p_ in tr.paths(fi.node.body):
+                if p_.exited == "raise":
+                    continue
+                f = tr.flatten(p_.events, depth + 1)
+                if f is None:
+                    out = None
+                    break
+                out |= f
+                if len(out) > 64:
+                    out = None
+                    break
+        except AnalysisError:
+            out = None
+        cache[key] = out
+        return out
+
+
+class _NullCheck:
+    """stands for the Check while a summary is computed: obligations are discharged where the function itself is analysed"""
+    def ob(self, *a, **k):
+        return None
 
 
 def nonuniform(labels) -> set:
@@ -218,25 +751,132 @@ def params_of(labels) -> set:
     return {l[2:] for l in labels if l.startswith("P:")}
 
 
+# --------------------------------------------------------------------------
+# tables of the label flow
+# --------------------------------------------------------------------------
+# builtins whose result is a function of their arguments only
+_PURE_BUILTINS = UNIFORM_CALLS | {
+    "bool", "any", "all", "round", "divmod", "reversed", "set", "frozenset", "repr", "type", "print", "map", "filter", "slice",
+    "complex", "pow", "ord", "chr", "bytes", "callable", "issubclass", "iter", "next", "dir", "vars", "super", "object",
+    "ValueError", "RuntimeError", "TypeError", "KeyError", "IndexError", "NotImplementedError", "AssertionError", "Exception",
+    "ArgumentError", "OSError", "IOError", "FileNotFoundError", "StopIteration", "Warning", "UserWarning", "DeprecationWarning"}
+# namespaces (module aliases) whose functions are deterministic functions of their arguments (np.random / np.load* apart)
+_PURE_MODULES = {"np", "numpy", "math", "operator", "itertools", "functools", "collections", "json", "argparse", "io", "warnings",
+                 "scipy", "sp", "re", "string", "copy", "pstats", "cProfile", "MPI", "sparse", "la", "linalg", "abc", "typing",
+                 "dataclasses", "enum", "textwrap", "logging", "sys", "pathlib", "Path", "shutil", "h5py", "os", "glob"}
+# methods of the built-in containers / strings / arrays: the result is a function of the receiver and the arguments
+_PURE_METHODS = {"append", "extend", "insert", "add", "update", "remove", "pop", "copy", "count", "index", "items", "keys", "values",
+                 "get", "format", "join", "split", "rsplit", "strip", "lstrip", "rstrip", "startswith", "endswith", "replace",
+                 "lower", "upper", "reshape", "flatten", "ravel", "astype", "transpose", "sum", "prod", "min", "max", "all", "any",
+                 "mean", "dot", "conj", "real", "imag", "fill", "tolist", "item", "view", "squeeze", "swapaxes", "argmax", "argmin",
+                 "argsort", "sort", "cumsum", "nonzero", "round", "clip", "take", "repeat", "setdefault", "clear", "discard",
+                 "union", "intersection", "difference", "symmetric_difference", "issubset", "issuperset", "isdisjoint", "reverse",
+                 "encode", "decode", "zfill", "title", "isdigit", "find", "rfind", "partition", "most_common", "popitem",
+                 "add_argument", "parse_args", "parse_known_args", "set_defaults", "add_mutually_exclusive_group",
+                 "warn", "close", "flush", "write", "writelines", "read", "readline", "readlines", "seek", "getvalue",
+                 "enable", "disable", "print_stats", "sort_stats", "create_dataset", "create_group", "require_dataset", "create",
+                 "debug", "info", "warning", "error", "exists", "is_dir", "is_file", "mkdir", "iterdir", "glob", "with_suffix",
+                 "resolve", "joinpath", "open", "read_text", "write_text", "unlink", "touch", "Get_size", "Get_group", "Get_name",
+                 "Get_dim", "Free", "Clone", "Set_name", "Is_inter", "tobytes", "byteswap", "isoformat", "total_seconds"}
+_FS_WRITE_CALLS = {"os.mkdir", "os.makedirs", "os.remove", "os.unlink", "os.rmdir", "os.rename", "os.replace", "shutil.rmtree",
+                   "shutil.move", "shutil.copy", "shutil.copyfile", "os.removedirs", "np.save", "np.savetxt", "np.savez",
+                   "numpy.save", "numpy.savetxt", "numpy.savez"}
+_FS_WRITE_METHODS = {"mkdir", "unlink", "rmdir", "rename", "replace", "touch", "write_text", "write_bytes", "makedirs"}
+_FS_READ_METHODS = {"exists", "is_dir", "is_file", "iterdir", "glob", "rglob", "stat", "read_text", "read_bytes", "lstat"}
+# attributes that exist on numpy arrays / builtins as well: the name alone says nothing about the object
+_AMBIGUOUS_ATTR = {"shape", "size", "rank", "_shape", "_size", "name", "ndims", "_name", "_ndims"}
+_POINT_TO_POINT = {"recv", "Recv", "irecv", "Irecv", "sendrecv", "Sendrecv", "Sendrecv_replace", "Probe", "Iprobe", "probe", "iprobe"}
+_GEOMETRY_NAME = re.compile(r"layout|(^|[^a-z])grid(?![a-z_]*(vals|pts|points))|distribFunc|manager|handler|swapper", re.I)
+
+
+def _const_int(n):
+    if isinstance(n, ast.Constant) and type(n.value) is int:
+        return n.value
+    if isinstance(n, ast.UnaryOp) and isinstance(n.op, ast.USub) and isinstance(n.operand, ast.Constant) and type(n.operand.value) is int:
+        return -n.operand.value
+    return None
+
+
 class LabelFlow:
     """Flow-sensitive forward propagation of variation labels through one
-    function (structured traversal; loops to fixpoint; implicit flows via pc)."""
+    function (structured traversal; loops to fixpoint; implicit flows via pc).
 
-    def __init__(self, spmd: SPMD, fi: FuncInfo, collect_attrs=False, depth=0):
+    The environment maps a local name to its labels.  Auxiliary keys (never names of the program):
+      "?x"      labels of the predicate `x is None` (presence, tracked apart from content)
+      "#x"      tuple of label sets, one per field, while x is bound to a tuple / record of known arity
+      "#col:x"  tuple of label sets, one per column, while x is a list of rows of one known arity
+      "#len:x"  labels of the NUMBER of elements of the container x (apart from what the elements hold)
+      "#fld:x"  dict field name -> labels while x is bound to a record built with keyword fields (namedtuple / dataclass)"""
+
+    def __init__(self, spmd: SPMD, fi: FuncInfo, collect_attrs=False, depth=0, closure=None):
         self.s = spmd
         self.fi = fi
         self.collect_attrs = collect_attrs
         self.depth = depth
+        self.closure = closure            # labels of the names of the enclosing function(s) (nested functions)
         self.at: dict[ast.AST, set] = {}
         self.ret: set = set()
         self.ret_elems = None          # per-element labels when every return is a tuple of one length
         self._ret_shapes = set()
-        self.setvars: set[str] = set()
+        self.setvars: dict[str, str] = {}       # set-typed locals -> element kind 'str' | 'int' | '?'
+        self.ever: dict[str, set] = {}          # every label a local name ever carried (what closures over it may see)
+        self.fs_written = False
+        self.inexact_binding: set = set()       # calls whose actuals could not be matched with the callee's parameters
+        self.star_fields: dict = {}             # Starred actual -> per-position labels when the expanded tuple has known fields
+        self.yield_elems = None                 # per-field labels when every yield is a tuple of one arity
+        self.yielded: set = set()               # labels of what a generator function yields (values and number)
+        self.yield_len: set = set()             # labels of the NUMBER of values it yields
+        self.trip_len: dict[ast.AST, bool] = {}  # loop iterables whose labels are those of their LENGTH
+        fn = fi.node
+        self._locals = {a.arg for a in ast.walk(fn.args) if isinstance(a, ast.arg)}
+        self._declared_out = set()              # names declared global / nonlocal here or in a function nested here
+        self._local_imports = {}                # names bound by import statements inside the function
+        for n in ast.walk(fn):
+            if isinstance(n, ast.Name) and isinstance(n.ctx, (ast.Store, ast.Del)) and spmd._owner(n) is fn:
+                self._locals.add(n.id)
+            elif isinstance(n, (ast.FunctionDef, ast.AsyncFunctionDef, ast.ClassDef)) and n is not fn and spmd._owner(n) is fn:
+                self._locals.add(n.name)
+            elif isinstance(n, (ast.Import, ast.ImportFrom)) and spmd._owner(n) is fn:
+                for a in n.names:
+                    self._locals.add((a.asname or a.name).split(".")[0])
+                    self._local_imports[(a.asname or a.name).split(".")[0]] = \
+                        (("." * n.level + (n.module or "")) if isinstance(n, ast.ImportFrom) else None, a.name)
+            elif isinstance(n, (ast.Global, ast.Nonlocal)):
+                self._declared_out |= set(n.names)
+
+    def trip_known(self, it) -> bool:
+        return bool(self.trip_len.get(it))
+
+    def _is_range(self, it):
+        """range(...) and enumerate / zip / reversed of it: the labels of the arguments are those of the number of passes"""
+        if isinstance(it, ast.Call) and isinstance(it.func, ast.Name) and it.func.id not in self._locals:
+            if it.func.id == "range":
+                return True
+            if it.func.id in ("enumerate", "reversed", "list", "tuple", "zip", "iter", "sorted") and it.args and not it.keywords:
+                return all(self._is_range(a) for a in it.args)
+        return False
+
+    def _module_alias(self, name):
+        """is the name bound (only) by an `import x [as name]` statement, in the function or at module level?"""
+        stores = self.__dict__.setdefault("_store_count", {})
+        if name in self._local_imports:
+            if name not in stores:
+                stores[name] = sum(1 for n in ast.walk(self.fi.node) if isinstance(n, ast.Name) and n.id == name and isinstance(n.ctx, ast.Store))
+            return self._local_imports[name][0] is None and stores[name] == 0 and name not in self.fi.params
+        if name in self._locals:
+            return False
+        bs = self.s.module_bindings(self.fi.rel).get(name)
+        if bs is None:
+            o = self.fi.outer
+            return False if o is None else LabelFlow(self.s, o, depth=9)._module_alias(name)
+        return all(k == "import" and not isinstance(st, ast.ImportFrom) for k, st, a in bs)
 
     def run(self):
         env = {p: {f"P:{p}"} for p in self.fi.params}
         if "self" in env:
             env["self"] = set()
+        for k, v in env.items():
+            self.ever[k] = set(v)
         self.block(self.fi.node.body, env, set())
 
     # -- statements
@@ -267,19 +907,24 @@ class LabelFlow:
 
     def stmt(self, st, env, pc):
         extra = set()
+        self._pc_now = set(pc)
         if isinstance(st, ast.Assign):
             lab = self.expr(st.value, env) | pc
-            self._mark_set(st)
             elems = None
-            if isinstance(st.value, ast.Call) and len(st.targets) == 1 and isinstance(st.targets[0], ast.Tuple):
-                elems = self.call_elems(st.value, env, len(st.targets[0].elts))
+            if isinstance(st.value, ast.Call):
+                n_ = len(st.targets[0].elts) if len(st.targets) == 1 and isinstance(st.targets[0], (ast.Tuple, ast.List)) else None
+                elems = self.call_elems(st.value, env, n_)
             for t in st.targets:
-                if elems is not None:
+                if elems is not None and isinstance(t, (ast.Tuple, ast.List)) and len(t.elts) == len(elems) and \
+                        not any(isinstance(x, ast.Starred) for x in t.elts):
                     for e, l in zip(t.elts, elems):
                         self.assign(e, l | pc, env, None)
                 else:
                     self.assign(t, lab, env, st.value)
                 if isinstance(t, ast.Name):
+                    self._mark_set(t.id, st.value, env)
+                    if elems is not None:
+                        env["#" + t.id] = tuple(frozenset(l | pc) for l in elems)
                     # presence (is it None?) is tracked apart from content: it depends on which assignment was reached (pc) and,
                     # for a copied name / a call result, on that value's own presence - not on the content of an array
                     v_ = st.value
@@ -294,20 +939,84 @@ class LabelFlow:
                     env["?" + t.id] = nl | {l_ for l_ in pc if not l_.startswith("P:")} | {l_ for l_ in nl | pc if l_.startswith("P:")}
         elif isinstance(st, ast.AugAssign):
             lab = self.expr(st.value, env) | self.expr(st.target, env) | pc
+            keep_len = None
+            if isinstance(st.target, ast.Name) and isinstance(st.op, ast.Add) and ("#len:" + st.target.id) in env:
+                # x += [..] / x += other: the number of elements grows by that of the operand, under pc
+                keep_len = set(env["#len:" + st.target.id]) | pc | self.len_labels(st.value, env)
             self.assign(st.target, lab, env, None)
+            if keep_len is not None:
+                env["#len:" + st.target.id] = keep_len
         elif isinstance(st, ast.AnnAssign):
             if st.value is not None:
                 self.assign(st.target, self.expr(st.value, env) | pc, env, st.value)
+                if isinstance(st.target, ast.Name):
+                    self._mark_set(st.target.id, st.value, env)
+        elif isinstance(st, ast.Expr) and isinstance(st.value, (ast.Yield, ast.YieldFrom)):
+            # a generator: what it yields, and how often (the conditions under which each yield is reached), make up the labels of
+            # the iterable a call of the function returns; the value sent back in is not used by a yield statement
+            if st.value.value is not None:
+                self.yielded |= self.expr(st.value.value, env)
+            yv = st.value.value
+            if isinstance(st.value, ast.Yield) and isinstance(yv, ast.Tuple) and not any(isinstance(x, ast.Starred) for x in yv.elts):
+                el = [self.at.get(x, set()) | pc for x in yv.elts]
+                if self.yield_elems is None:
+                    self.yield_elems = el
+                elif self.yield_elems and len(self.yield_elems) == len(el):
+                    self.yield_elems = [a | b for a, b in zip(self.yield_elems, el)]
+                else:
+                    self.yield_elems = []
+            else:
+                self.yield_elems = []
+            self.yielded |= pc
+            self.yield_len |= pc
+            if isinstance(st.value, ast.YieldFrom):
+                l_ = self.len_labels(st.value.value, env)
+                self.yield_len |= l_ if l_ is not None else self.at.get(st.value.value, set())
+            self.at[st.value] = set()
         elif isinstance(st, ast.Expr):
             self.expr(st.value, env)
             # mutating method calls on a local: x.append(e) etc.
             v = st.value
             if isinstance(v, ast.Call) and isinstance(v.func, ast.Attribute) and \
-                    v.func.attr in ("append", "extend", "insert", "add", "update", "remove", "pop"):
+                    v.func.attr in ("append", "extend", "insert", "add", "update", "remove", "pop", "setdefault", "discard", "clear",
+                                    "sort", "reverse", "fill", "popitem", "appendleft", "extendleft"):
                 lab = set(pc)
                 for a in v.args:
                     lab |= self.expr(a, env)
-                self.assign(v.func.value, lab | self.expr(v.func.value, env), env, None, weak=True)
+                for k in v.keywords:
+                    lab |= self.expr(k.value, env)
+                recv = v.func.value
+                cols = lens = None
+                if isinstance(recv, ast.Name):
+                    # a list of rows stays a table of known columns under append(<display of the same arity>)
+                    oc, ol = env.get("#col:" + recv.id), env.get("#len:" + recv.id)
+                    if v.func.attr == "append" and len(v.args) == 1 and not v.keywords:
+                        a0 = v.args[0]
+                        if ol is not None:
+                            lens = set(ol) | pc
+                        if isinstance(a0, (ast.Tuple, ast.List)) and not any(isinstance(x, ast.Starred) for x in a0.elts) and \
+                                oc is not None and (len(oc) == len(a0.elts) or oc == ()):
+                            row = [self.at.get(x, set()) | pc for x in a0.elts]
+                            cols = tuple(frozenset(r) for r in row) if oc == () else tuple(frozenset(a | b) for a, b in zip(oc, row))
+                    elif v.func.attr in ("sort", "reverse") and not v.args:
+                        cols, lens = oc, ol
+                    elif v.func.attr in ("extend", "insert", "add", "update", "remove", "pop", "discard", "clear", "popitem") and ol is not None:
+                        lens = set(ol) | lab
+                self.assign(recv, lab | self.expr(recv, env), env, None, weak=True)
+                if isinstance(recv, ast.Name):
+                    if cols is not None:
+                        env["#col:" + recv.id] = cols
+                    if lens is not None:
+                        env["#len:" + recv.id] = lens
+            elif isinstance(v, ast.Call) and isinstance(v.func, ast.Name) and v.func.id == "setattr" and len(v.args) == 3:
+                # setattr(obj, name, value): any attribute of the object may now hold the value
+                lab = self.expr(v.args[2], env) | self.expr(v.args[1], env) | pc
+                tgt = v.args[0]
+                if isinstance(tgt, ast.Name) and tgt.id == "self" and self.fi.cls:
+                    nm = v.args[1].value if isinstance(v.args[1], ast.Constant) and isinstance(v.args[1].value, str) else "*"
+                    self.assign(ast.Attribute(value=tgt, attr=nm, ctx=ast.Store()), lab, env, None, weak=True)
+                else:
+                    self.assign(tgt, lab, env, None, weak=True)
         elif isinstance(st, ast.If):
             tl = self.expr(st.test, env)
             self.at[st.test] = tl
@@ -318,27 +1027,39 @@ class LabelFlow:
         elif isinstance(st, (ast.For, ast.AsyncFor)):
             il = self.expr(st.iter, env)
             rows = self._literal_rows(st.iter)
+            trip = self.len_labels(st.iter, env)
             if rows is not None:
                 # a literal table: the number of iterations is fixed by the source text, whatever the entries hold
                 il = set()
+            elif trip is not None:
+                # the number of passes is known apart from what the elements hold
+                il = set(trip)
             self.at[st.iter] = il
-            self._mark_set_iter(st)
+            self.trip_len[st.iter] = rows is not None or trip is not None or self._is_range(st.iter)
+            order = self._hash_order(st.iter, env)          # iteration in the order of a set
             for _ in range(3):
                 e = dict(env)
-                if rows is not None and isinstance(st.target, (ast.Tuple, ast.List)) and rows and \
-                        all(isinstance(r, (ast.Tuple, ast.List)) and len(r.elts) == len(st.target.elts) for r in rows):
-                    for k, t_ in enumerate(st.target.elts):
+                bound = self._bind_rows(st.target, rows) if rows is not None else None
+                cols = self._columns(st.iter, env) if rows is None else None
+                if bound is not None:
+                    for t_, nodes in bound:
                         lab_k = set()
-                        for r in rows:
-                            lab_k |= self.expr(r.elts[k], e)
+                        for r in nodes:
+                            lab_k |= self.expr(r, e)
                         self.assign(t_, lab_k | pc, e, None)
                 elif rows is not None:
                     lab_all = set()
                     for r in rows:
                         lab_all |= self.expr(r, e)
                     self.assign(st.target, lab_all | pc, e, None)
+                elif cols is not None and isinstance(st.target, (ast.Tuple, ast.List)) and len(cols) == len(st.target.elts) and \
+                        not any(isinstance(x, ast.Starred) for x in st.target.elts):
+                    for t_, l_ in zip(st.target.elts, cols):
+                        self.assign(t_, set(l_) | il | pc | order, e, None)
                 else:
-                    self.assign(st.target, il | pc, e, None)
+                    self.assign(st.target, self._expr(st.iter, e) | il | pc | order, e, None)
+                    if cols is not None and isinstance(st.target, ast.Name):
+                        e["#" + st.target.id] = tuple(frozenset(set(l_) | il | pc | order) for l_ in cols)
                 e, x = self.block2(st.body, e, pc | il)
                 extra |= x
                 env = self.join(env, e)
@@ -352,12 +1073,21 @@ class LabelFlow:
                 env = self.join(env, e)
             tl = self.expr(st.test, env)
             self.at[st.test] = tl
+            if st.orelse:
+                env = self.join(env, self.block(st.orelse, dict(env), pc | tl))
         elif isinstance(st, ast.Return):
             if st.value is not None:
                 self.ret |= self.expr(st.value, env) | pc
-                if isinstance(st.value, ast.Tuple):
+                if isinstance(st.value, ast.Tuple) and not any(isinstance(x, ast.Starred) for x in st.value.elts):
                     self._ret_shapes.add(len(st.value.elts))
                     el = [self.at.get(v, set()) | pc for v in st.value.elts]
+                    if self.ret_elems is None:
+                        self.ret_elems = el
+                    elif len(self.ret_elems) == len(el):
+                        self.ret_elems = [a | b for a, b in zip(self.ret_elems, el)]
+                elif isinstance(st.value, ast.Name) and ("#" + st.value.id) in env:
+                    el = [set(x) | pc for x in env["#" + st.value.id]]
+                    self._ret_shapes.add(len(el))
                     if self.ret_elems is None:
                         self.ret_elems = el
                     elif len(self.ret_elems) == len(el):
@@ -374,67 +1104,517 @@ class LabelFlow:
                 l = self.expr(it.context_expr, env)
                 if it.optional_vars is not None:
                     self.assign(it.optional_vars, l | pc, env, None)
-            env = self.block(st.body, env, pc)
-        elif isinstance(st, ast.Try):
-            env = self.block(st.body, env, pc)
+            env, x = self.block2(st.body, env, pc)
+            extra |= x
+        elif isinstance(st, ast.Try) or st.__class__.__name__ == "TryStar":
+            # AUDIT: whether a statement of the body raises is an event of the rank (the state of the file system when it looked,
+            # its data): what a handler (or the else part, which runs when nothing was raised) assigns depends on it
+            env0 = dict(env)
+            env, x = self.block2(st.body, env, pc)
+            extra |= x
+            exc_pc = pc | ({UNK} if st.handlers else set())
+            after = self.join(env0, env)
+            out_env = env
             for h in st.handlers:
-                env = self.join(env, self.block(h.body, dict(env), pc))
-            env = self.block(st.orelse, env, pc)
-            env = self.block(st.finalbody, env, pc)
+                eh = dict(after)
+                if h.type is not None:
+                    self.expr(h.type, eh)
+                if h.name:
+                    eh[h.name] = {UNK}
+                    eh.pop("?" + h.name, None)
+                eh, x = self.block2(h.body, eh, exc_pc)
+                extra |= x
+                out_env = self.join(out_env, eh)
+            env = out_env
+            if st.orelse:
+                env, x = self.block2(st.orelse, env, exc_pc)
+                extra |= x
+            env, x = self.block2(st.finalbody, env, pc)
+            extra |= x
         elif isinstance(st, ast.Assert):
             self.expr(st.test, env)
-        elif isinstance(st, (ast.FunctionDef, ast.ClassDef)):
-            env[st.name] = set()
+            if st.msg is not None:
+                self.expr(st.msg, env)
+        elif isinstance(st, (ast.FunctionDef, ast.AsyncFunctionDef, ast.ClassDef)):
+            self._assign_name(st.name, set(pc), env, weak=False)
+            for d in st.decorator_list:
+                self.expr(d, env)
         elif isinstance(st, (ast.Import, ast.ImportFrom)):
             for a in st.names:
-                env[(a.asname or a.name).split(".")[0]] = set()
+                self._assign_name((a.asname or a.name).split(".")[0], set(), env, weak=False)
         elif isinstance(st, ast.Raise):
             if st.exc is not None:
                 self.expr(st.exc, env)
+            self.at[st] = set(pc)
         elif isinstance(st, (ast.Break, ast.Continue)):
             self.at[st] = set(pc)
             extra |= pc
+        elif isinstance(st, ast.Delete):
+            for t in st.targets:
+                if isinstance(t, ast.Name):
+                    self._forget(t.id, env)
+                elif isinstance(t, (ast.Subscript, ast.Attribute)):
+                    self.assign(t, set(pc) | self.expr(t.value, env), env, None, weak=True)
+        elif st.__class__.__name__ == "Match":
+            sl = self.expr(st.subject, env)
+            outs = []
+            for case in st.cases:
+                e = dict(env)
+                for n in ast.walk(case.pattern):
+                    nm = getattr(n, "name", None) or getattr(n, "rest", None)
+                    if isinstance(nm, str):
+                        self._assign_name(nm, sl | pc, e, weak=False)
+                    if isinstance(n, ast.expr):
+                        self.expr(n, e)
+                gl = self.expr(case.guard, e) if case.guard is not None else set()
+                e, x = self.block2(case.body, e, pc | sl | gl)
+                extra |= x
+                outs.append(e)
+            for e in outs:
+                env = self.join(env, e)
+        elif isinstance(st, (ast.Global, ast.Nonlocal, ast.Pass)):
+            pass
+        else:
+            # AUDIT: a statement kind the flow does not model: every name it may bind is unknown from here on
+            for n in ast.walk(st):
+                if isinstance(n, ast.Name) and isinstance(n.ctx, ast.Store):
+                    self._assign_name(n.id, {UNK} | pc, env, weak=False)
         return env, extra
 
-    def _mark_set(self, st):
-        v = st.value
-        is_set = isinstance(v, (ast.Set, ast.SetComp)) or \
-            (isinstance(v, ast.Call) and isinstance(v.func, ast.Name) and v.func.id in ("set", "frozenset"))
-        for t in st.targets:
-            if isinstance(t, ast.Name):
-                if is_set:
-                    self.setvars.add(t.id)
-                else:
-                    self.setvars.discard(t.id)
+    # -- sets (iteration order = hash order)
+    def _elem_kind(self, nodes):
+        ks = set()
+        for x in nodes:
+            if isinstance(x, ast.Constant) and isinstance(x.value, str):
+                ks.add("str")
+            elif isinstance(x, ast.Constant) and type(x.value) is int:
+                ks.add("int")
+            else:
+                ks.add("?")
+        return ks.pop() if len(ks) == 1 else "?"
 
-    def _mark_set_iter(self, st):
-        pass
+    def _set_kind(self, v, env, depth=0):
+        """element kind of a set-valued expression ('str' | 'int' | '?'), or None when the expression is not known to be a set.
+        '?' covers what the analysis does not determine; the nodes of the connection graph handed to the layout managers are layout
+        names (strings: documented API, assumption of C06), which is how a set built from the keys / entries of a parameter reads."""
+        if depth > 4 or v is None:
+            return None
+        if isinstance(v, ast.Set):
+            return self._elem_kind(v.elts)
+        if isinstance(v, ast.SetComp):
+            return self._iter_kind(v.generators[0].iter, env, depth + 1) if len(v.generators) == 1 and isinstance(v.elt, ast.Name) and \
+                isinstance(v.generators[0].target, ast.Name) and v.elt.id == v.generators[0].target.id else "?"
+        if isinstance(v, ast.Call) and isinstance(v.func, ast.Name) and v.func.id in ("set", "frozenset"):
+            if not v.args:
+                return "?"
+            return self._iter_kind(v.args[0], env, depth + 1)
+        if isinstance(v, ast.Name) and v.id in self.setvars:
+            return self.setvars[v.id]
+        if isinstance(v, ast.BinOp) and isinstance(v.op, (ast.Sub, ast.BitAnd, ast.BitOr, ast.BitXor)):
+            a, b = self._set_kind(v.left, env, depth + 1), self._set_kind(v.right, env, depth + 1)
+            if a is None and b is None:
+                return None
+            if a is None or b is None:
+                # set algebra with a dict view (d.keys() - {...}) is a set
+                other = v.right if a is not None else v.left
+                if not (isinstance(other, ast.Call) and isinstance(other.func, ast.Attribute) and other.func.attr in ("keys", "items")):
+                    return None
+                return a or b if isinstance(v.op, (ast.Sub, ast.BitAnd)) and a is not None else "?"
+            return a if a == b or isinstance(v.op, ast.Sub) else "?"
+        if isinstance(v, ast.Call) and isinstance(v.func, ast.Attribute) and \
+                v.func.attr in ("union", "intersection", "difference", "symmetric_difference", "copy"):
+            return self._set_kind(v.func.value, env, depth + 1)
+        if isinstance(v, ast.IfExp):
+            a, b = self._set_kind(v.body, env, depth + 1), self._set_kind(v.orelse, env, depth + 1)
+            return None if a is None and b is None else (a if a == b else "?")
+        return None
 
-    def _literal_rows(self, it):
-        """elements of a literal tuple/list iterated by a for loop (directly or through a local assigned once), else None"""
-        if isinstance(it, (ast.Tuple, ast.List)):
-            return list(it.elts)
+    def _iter_kind(self, it, env, depth=0):
+        """kind of the elements an iterable yields"""
+        if depth > 4:
+            return "?"
+        if isinstance(it, (ast.List, ast.Tuple, ast.Set)):
+            return self._elem_kind(it.elts)
+        if isinstance(it, ast.Call) and isinstance(it.func, ast.Name) and it.func.id == "range":
+            return "int"
+        if isinstance(it, ast.Call) and isinstance(it.func, ast.Name) and it.func.id in ("list", "tuple", "sorted", "set", "frozenset",
+                                                                                         "reversed", "iter") and len(it.args) == 1:
+            return self._iter_kind(it.args[0], env, depth + 1)
+        k = self._set_kind(it, env, depth + 1)
+        if k is not None:
+            return k
+        if isinstance(it, ast.Dict):
+            return self._elem_kind([x for x in it.keys if x is not None])
         if isinstance(it, ast.Name):
-            defs = [n for n in ast.walk(self.fi.node) if isinstance(n, ast.Assign) and len(n.targets) == 1
-                    and isinstance(n.targets[0], ast.Name) and n.targets[0].id == it.id]
-            stores = [n for n in ast.walk(self.fi.node) if isinstance(n, ast.Name) and n.id == it.id and isinstance(n.ctx, ast.Store)]
-            if len(defs) == 1 and len(stores) == 1 and isinstance(defs[0].value, (ast.Tuple, ast.List)):
-                return list(defs[0].value.elts)
+            v = self._single_def(it.id)
+            if v is not None and not isinstance(v, ast.Name):
+                return self._iter_kind(v, env, depth + 1)
+        return "?"
+
+    def _mark_set(self, name, v, env):
+        k = self._set_kind(v, env)
+        if k is not None:
+            self.setvars[name] = k
+        else:
+            self.setvars.pop(name, None)
+
+    def _hash_label(self, kind):
+        """labels of a value that depends on the iteration order of a set of the given element kind"""
+        fq = self.fi.qual.split(".")[-1]
+        if fq in self.s.b4_ok or self.fi.qual in self.s.b4_ok or kind == "int":
+            return set()           # compensated by a total tie-break (decided by B4) / small integers hash to themselves
+        # AUDIT: the iteration order of a set differs between interpreters for strings (salted hashes).  Established for string
+        # literals; a set whose elements the analysis did not determine may hold strings: not established ('?')
+        return S(HASH) if kind == "str" else {HASH}
+
+    def _hash_order(self, it, env):
+        x = it
+        while isinstance(x, ast.Call) and isinstance(x.func, ast.Name) and x.func.id in ("enumerate", "list", "tuple", "reversed", "iter", "zip") \
+                and x.args:
+            x = x.args[0]
+        k = self._set_kind(x, env)
+        return self._hash_label(k) if k is not None else set()
+
+    # -- tables written out in the source
+    def _single_def(self, name):
+        """the value of a local assigned exactly once in the function (and not a parameter), else None"""
+        cache = self.s.__dict__.setdefault("_sd_cache", {})
+        k = (self.fi.node, name)
+        if k not in cache:
+            cache[k] = self._single_def_(name)
+        return cache[k]
+
+    def _single_def_(self, name):
+        if name in self.fi.params:
+            return None
+        defs = [n for n in ast.walk(self.fi.node) if isinstance(n, ast.Assign) and len(n.targets) == 1
+                and isinstance(n.targets[0], ast.Name) and n.targets[0].id == name]
+        stores = [n for n in ast.walk(self.fi.node) if isinstance(n, ast.Name) and n.id == name and isinstance(n.ctx, (ast.Store, ast.Del))]
+        if len(defs) == 1 and len(stores) == 1 and self.s._owner(defs[0]) is self.fi.node and name not in self._declared_out:
+            return defs[0].value
+        return None
+
+    def _mutated(self, name):
+        """is the local changed in place somewhere in the function (element store, mutating method, augmented assignment)?"""
+        cache = self.s.__dict__.setdefault("_mut_cache", {})
+        k = (self.fi.node, name)
+        if k not in cache:
+            cache[k] = self._mutated_(name)
+        return cache[k]
+
+    def _mutated_(self, name):
+        for n in ast.walk(self.fi.node):
+            if isinstance(n, (ast.Subscript, ast.Attribute)) and isinstance(n.ctx, (ast.Store, ast.Del)) and \
+                    isinstance(n.value, ast.Name) and n.value.id == name:
+                return True
+            if isinstance(n, ast.Call) and isinstance(n.func, ast.Attribute) and isinstance(n.func.value, ast.Name) and \
+                    n.func.value.id == name and n.func.attr in ("append", "extend", "insert", "add", "update", "remove", "pop", "clear",
+                                                                "setdefault", "popitem", "sort", "reverse", "discard"):
+                return True
+            if isinstance(n, ast.AugAssign) and isinstance(n.target, ast.Name) and n.target.id == name:
+                return True
+        return False
+
+    def _const_table(self, e, depth=0):
+        """the display (list / tuple / dict / set node) an expression denotes when that is fixed by the source text: the display
+        itself, a local assigned once and never changed in place, a module-level name or a class attribute assigned once"""
+        if depth > 4:
+            return None
+        if isinstance(e, (ast.Tuple, ast.List, ast.Dict)):
+            return e
+        if isinstance(e, ast.Name):
+            if e.id in self._locals:
+                v = self._single_def(e.id)
+                if v is None or self._mutated(e.id):
+                    return None
+                return self._const_table(v, depth + 1)
+            v = self.s.module_const(self.fi.rel, e.id)
+            return self._const_table(v, depth + 1) if v is not None else None
+        if isinstance(e, ast.Attribute) and isinstance(e.value, ast.Name) and e.value.id in ("self", "cls") and self.fi.cls:
+            v = self.s.class_const(self.fi.cls, e.attr)
+            return self._const_table(v, depth + 1) if v is not None else None
+        if isinstance(e, ast.Attribute) and isinstance(e.value, ast.Name) and e.value.id in self.s.prog.classes:
+            v = self.s.class_const(e.value.id, e.attr)
+            return self._const_table(v, depth + 1) if v is not None else None
+        return None
+
+    def _literal_rows(self, it, depth=0):
+        """rows of a loop over a table written out in the source: list / tuple display, dict display and its items() / keys() /
+        values(), enumerate / zip / reversed / list / tuple of such tables, range(<constant>); directly or through a name bound
+        once to it (local never changed in place, module constant, class attribute).  The number of rows is fixed by the source
+        text.  -> list of row nodes, or None"""
+        if depth > 4 or it is None:
+            return None
+        if isinstance(it, (ast.Name, ast.Attribute)):
+            t = self._const_table(it)
+            return self._literal_rows(t, depth + 1) if t is not None else None
+        if isinstance(it, (ast.Tuple, ast.List)):
+            return None if any(isinstance(x, ast.Starred) for x in it.elts) else list(it.elts)
+        if isinstance(it, ast.Dict):
+            return None if any(k is None for k in it.keys) else list(it.keys)
+        if isinstance(it, ast.Call) and isinstance(it.func, ast.Attribute) and it.func.attr in ("items", "keys", "values") and \
+                not it.args and not it.keywords:
+            d = self._const_table(it.func.value)
+            if isinstance(d, ast.Dict) and not any(k is None for k in d.keys):
+                if it.func.attr == "items":
+                    return [ast.Tuple(elts=[k, v], ctx=ast.Load()) for k, v in zip(d.keys, d.values)]
+                return list(d.keys if it.func.attr == "keys" else d.values)
+            return None
+        if isinstance(it, ast.Call) and isinstance(it.func, ast.Name) and not any(isinstance(a, ast.Starred) for a in it.args):
+            if it.func.id == "enumerate" and it.args:
+                rows = self._literal_rows(it.args[0], depth + 1)
+                st = it.args[1] if len(it.args) > 1 else next((k.value for k in it.keywords if k.arg == "start"), ast.Constant(value=0))
+                if rows is None or _const_int(st) is None:
+                    return None
+                return [ast.Tuple(elts=[ast.Constant(value=_const_int(st) + i), r], ctx=ast.Load()) for i, r in enumerate(rows)]
+            if it.func.id == "zip" and it.args and not it.keywords:
+                cols = [self._literal_rows(a, depth + 1) for a in it.args]
+                if any(c is None for c in cols) or len({len(c) for c in cols}) != 1:
+                    return None
+                return [ast.Tuple(elts=list(r), ctx=ast.Load()) for r in zip(*cols)]
+            if it.func.id in ("reversed", "list", "tuple", "sorted") and len(it.args) == 1 and not it.keywords:
+                rows = self._literal_rows(it.args[0], depth + 1)
+                if rows is None:
+                    return None
+                if it.func.id == "sorted" and not all(isinstance(r, ast.Constant) for r in rows):
+                    return None
+                return list(reversed(rows)) if it.func.id == "reversed" else rows
+            if it.func.id == "range" and len(it.args) == 1 and not it.keywords and _const_int(it.args[0]) is not None:
+                return [ast.Constant(value=i) for i in range(max(0, min(_const_int(it.args[0]), 64)))]
+        return None
+
+    def _bind_rows(self, target, rows):
+        """[(target leaf node, [the nodes it takes, row by row])], or None when the rows do not have the shape of the target"""
+        out, index = [], {}
+
+        def go(t, n):
+            if isinstance(t, (ast.Name, ast.Attribute, ast.Subscript)):
+                if id(t) not in index:
+                    index[id(t)] = len(out)
+                    out.append((t, []))
+                out[index[id(t)]][1].append(n)
+                return True
+            if isinstance(t, (ast.Tuple, ast.List)) and isinstance(n, (ast.Tuple, ast.List)) and len(t.elts) == len(n.elts) and \
+                    not any(isinstance(x, ast.Starred) for x in list(t.elts) + list(n.elts)):
+                return all(go(a, b) for a, b in zip(t.elts, n.elts))
+            return False
+        if not rows or not isinstance(target, (ast.Tuple, ast.List)):
+            return None
+        return out if all(go(target, r) for r in rows) else None
+
+    def _columns(self, it, env):
+        """per-column labels of the rows an iterable yields, when known (a local list of rows of one arity; enumerate / zip)"""
+        if isinstance(it, ast.Name):
+            c = env.get("#col:" + it.id)
+            return c if c else None
+        if isinstance(it, ast.Call) and isinstance(it.func, ast.Name) and not it.keywords and \
+                not any(isinstance(a, ast.Starred) for a in it.args):
+            if it.func.id == "enumerate" and len(it.args) == 1:
+                return (frozenset(), frozenset(self._elem_labels(it.args[0], env)))
+            if it.func.id == "zip" and it.args:
+                return tuple(frozenset(self._elem_labels(a, env)) for a in it.args)
+            if it.func.id in ("reversed", "list", "tuple", "sorted") and len(it.args) == 1:
+                return self._columns(it.args[0], env)
+        if isinstance(it, ast.Call):
+            tg = self.s.resolve(it, self.fi)
+            if tg and self.depth < 5:
+                out = None
+                for key in tg:
+                    callee = self.s.funcs[key]
+                    if callee.outer is not None and callee.outer is self.fi:
+                        return None
+                    self.s.return_labels(key, self.depth)
+                    el = getattr(callee, "yield_elems", None)
+                    if not el or (out is not None and len(out) != len(el)):
+                        return None
+                    if out is None:
+                        out = [set() for _ in el]
+                    pmap = self.bind(it, callee, env)
+                    for i, rl in enumerate(el):
+                        out[i] |= {l for l in rl if not l.startswith("P:")}
+                        for p in params_of(rl):
+                            out[i] |= pmap.get(p, set())
+                return tuple(frozenset(x) for x in out) if out else None
+        return None
+
+    def _elem_labels(self, it, env):
+        """labels of one element of the iterable"""
+        hl = self._hash_order(it, env)
+        if isinstance(it, ast.Call) and isinstance(it.func, ast.Name) and it.func.id == "range":
+            return self.at.get(it, set()) | hl
+        return self.at.get(it, self.expr(it, env)) | hl
+
+    def len_labels(self, it, env, depth=0):
+        """labels of the NUMBER of elements an iterable yields, or None when only the content labels are known"""
+        if depth > 4 or it is None:
+            return None
+        rows = self._literal_rows(it)
+        if rows is not None:
+            return set()
+        if isinstance(it, ast.Name):
+            l = env.get("#len:" + it.id)
+            return set(l) if l is not None else None
+        if isinstance(it, (ast.List, ast.Tuple)) and not any(isinstance(x, ast.Starred) for x in it.elts):
+            return set()
+        if isinstance(it, ast.Call) and isinstance(it.func, ast.Name) and not it.keywords and \
+                not any(isinstance(a, ast.Starred) for a in it.args):
+            if it.func.id in ("enumerate", "reversed", "list", "tuple", "sorted", "iter") and it.args:
+                return self.len_labels(it.args[0], env, depth + 1)
+            if it.func.id == "zip" and it.args:
+                ls = [self.len_labels(a, env, depth + 1) for a in it.args]
+                return None if any(l is None for l in ls) else set().union(*ls)
+            if it.func.id == "range":
+                out = set()
+                for a in it.args:
+                    out |= self.at.get(a, self.expr(a, env))
+                return out
+        if isinstance(it, ast.Call) and isinstance(it.func, ast.Attribute) and it.func.attr in ("items", "keys", "values") and not it.args:
+            return self.len_labels(it.func.value, env, depth + 1)
+        if isinstance(it, ast.Subscript) and isinstance(it.slice, ast.Slice):
+            l = self.len_labels(it.value, env, depth + 1)
+            return None if l is None else l | self.at.get(it.slice, self.expr(it.slice, env))
+        if isinstance(it, ast.BinOp) and isinstance(it.op, ast.Add):
+            a, b = self.len_labels(it.left, env, depth + 1), self.len_labels(it.right, env, depth + 1)
+            return None if a is None or b is None else a | b
+        if isinstance(it, ast.Call):
+            # a call of a generator function of the program: the number of values it yields
+            tg = self.s.resolve(it, self.fi)
+            if tg and self.depth < 5:
+                out = set()
+                for key in tg:
+                    callee = self.s.funcs[key]
+                    if callee.outer is not None and callee.outer is self.fi:
+                        return None
+                    self.s.return_labels(key, self.depth)
+                    yl = getattr(callee, "yield_len", None)
+                    if yl is None:
+                        return None
+                    out |= {l for l in yl if not l.startswith("P:")}
+                    pmap = self.bind(it, callee, env)
+                    for p in params_of(yl):
+                        out |= pmap.get(p, set())
+                return out
         return None
 
     def join(self, a, b):
         out = dict(a)
         for k, v in b.items():
+            if k[0] == "#":
+                if k in a and k.startswith("#len:"):
+                    out[k] = set(a[k]) | set(v)
+                elif k in a and k.startswith("#fld:") and set(a[k]) == set(v):
+                    out[k] = {f: frozenset(a[k][f] | v[f]) for f in v}
+                elif k in a and not k.startswith("#fld:") and isinstance(a[k], tuple) and len(a[k]) == len(v):
+                    out[k] = tuple(frozenset(x | y) for x, y in zip(a[k], v))
+                else:
+                    out.pop(k, None)
+                continue
             out[k] = out.get(k, set()) | v
+        for k in list(out):
+            if k[0] == "#" and k not in b:
+                del out[k]
         return out
+
+    def _forget(self, name, env):
+        for pre in ("#", "#col:", "#len:", "#fld:", "?"):
+            env.pop(pre + name, None)
+
+    def _assign_name(self, name, lab, env, weak):
+        if weak:
+            env[name] = env.get(name, set()) | lab
+            for pre in ("#", "#col:", "#fld:"):
+                env.pop(pre + name, None)
+            if ("#len:" + name) in env:
+                env["#len:" + name] = set(env["#len:" + name]) | lab
+        else:
+            env[name] = set(lab)
+            self._forget(name, env)
+        self.ever[name] = self.ever.get(name, set()) | lab
+
+    def _structure(self, name, value, lab, env):
+        """per-field / per-column / length labels of a name bound to a display, a comprehension or a copy of a known structure"""
+        pcx = None
+        if isinstance(value, (ast.Tuple, ast.List)) and not any(isinstance(x, ast.Starred) for x in value.elts):
+            labs = [self.at.get(v, set()) for v in value.elts]
+            pcx = lab - set().union(*labs) if labs else set(lab)
+            env["#" + name] = tuple(frozenset(l | pcx) for l in labs)
+            env["#len:" + name] = set(pcx)
+            if isinstance(value, ast.List):
+                rows = [v for v in value.elts]
+                if not rows:
+                    env["#col:" + name] = ()
+                elif all(isinstance(r, (ast.Tuple, ast.List)) and len(r.elts) == len(rows[0].elts) and
+                         not any(isinstance(x, ast.Starred) for x in r.elts) for r in rows):
+                    env["#col:" + name] = tuple(frozenset(set().union(*[self.at.get(r.elts[k], set()) for r in rows]) | pcx)
+                                               for k in range(len(rows[0].elts)))
+        elif isinstance(value, ast.Name):
+            for pre in ("#", "#col:", "#len:", "#fld:"):
+                if (pre + value.id) in env:
+                    env[pre + name] = env[pre + value.id]
+        elif isinstance(value, (ast.ListComp, ast.SetComp, ast.DictComp, ast.GeneratorExp)):
+            ll = set()
+            for g in value.generators:
+                l_ = self.len_labels(g.iter, env)
+                ll |= l_ if l_ is not None else self.at.get(g.iter, set())
+                for c in g.ifs:
+                    ll |= self.at.get(c, set())
+            pcx = {l for l in lab if l in self._pc_now}
+            env["#len:" + name] = ll | pcx
+            if isinstance(value, ast.ListComp) and isinstance(value.elt, (ast.Tuple, ast.List)) and \
+                    not any(isinstance(x, ast.Starred) for x in value.elt.elts):
+                env["#col:" + name] = tuple(frozenset(self.at.get(x, set()) | ll | pcx) for x in value.elt.elts)
+        elif isinstance(value, ast.Call) and isinstance(value.func, ast.Name) and value.func.id in ("list", "tuple", "dict", "set", "sorted") \
+                and not value.keywords:
+            if not value.args:
+                env["#len:" + name] = {l for l in lab}
+                if value.func.id == "list":
+                    env["#col:" + name] = ()
+            elif len(value.args) == 1:
+                l_ = self.len_labels(value.args[0], env)
+                if l_ is not None and value.func.id != "set":
+                    env["#len:" + name] = l_ | {l for l in lab if l in self._pc_now}
+        elif isinstance(value, ast.Dict) and not any(k is None for k in value.keys):
+            labs = set()
+            for v in list(value.keys) + list(value.values):
+                labs |= self.at.get(v, set())
+            env["#len:" + name] = lab - labs
+        elif isinstance(value, ast.Call):
+            flds = self.s.record_fields(value, self.fi)
+            if flds is not None:
+                got = {}
+                for i, a in enumerate(value.args):
+                    if isinstance(a, ast.Starred) or i >= len(flds):
+                        return
+                    got[flds[i]] = frozenset(self.at.get(a, set()))
+                for k in value.keywords:
+                    if k.arg is None or k.arg not in flds:
+                        return
+                    got[k.arg] = frozenset(self.at.get(k.value, set()))
+                env["#fld:" + name] = {f: got.get(f, frozenset()) for f in flds}
+                env["#" + name] = tuple(got.get(f, frozenset()) for f in flds)
+
+    _pc_now: set = set()
 
     def assign(self, t, lab, env, value, weak=False):
         if isinstance(t, ast.Name):
-            env[t.id] = (env.get(t.id, set()) | lab) if weak else set(lab)
+            self._assign_name(t.id, lab, env, weak)
+            if not weak and value is not None:
+                try:
+                    self._structure(t.id, value, lab, env)
+                except Exception:
+                    self._forget_structure(t.id, env)
         elif isinstance(t, (ast.Tuple, ast.List)):
-            if isinstance(value, (ast.Tuple, ast.List)) and len(value.elts) == len(t.elts):
+            star = any(isinstance(x, ast.Starred) for x in t.elts)
+            if isinstance(value, (ast.Tuple, ast.List)) and len(value.elts) == len(t.elts) and not star and \
+                    not any(isinstance(x, ast.Starred) for x in value.elts):
                 labs = [self.expr(v, env) for v in value.elts]
                 pcx = lab - set().union(*labs) if labs else lab
+                for e, l, v in zip(t.elts, labs, value.elts):
+                    self.assign(e, l | pcx, env, v)
+            elif isinstance(value, ast.Name) and not star and len(env.get("#" + value.id, ())) == len(t.elts) and t.elts:
+                # unpacking a tuple / record of known fields: each target takes its own field
+                labs = [set(x) for x in env["#" + value.id]]
+                pcx = lab - env.get(value.id, set())
                 for e, l in zip(t.elts, labs):
                     self.assign(e, l | pcx, env, None)
             else:
@@ -451,11 +1631,20 @@ class LabelFlow:
                     clean = {l for l in lab if not l.startswith("P:")}
                     if self.fi.qual.split(".")[-1] in self.s.b4_ok or self.fi.qual in self.s.b4_ok:
                         clean.discard(HASH)
+                        clean.discard("!" + HASH)
                     key = (self.fi.cls, t.attr)
                     self.s.class_attr[key] = self.s.class_attr.get(key, set()) | clean
+                    if value is not None and not weak:
+                        self.s.note_attr_structure(self.fi.cls, t.attr, self, value, lab, env)
+                    else:
+                        self.s.note_attr_structure(self.fi.cls, t.attr, self, None, lab, env)
                 env["self." + t.attr] = (env.get("self." + t.attr, set()) | lab) if weak else set(lab)
             else:
                 self.assign(t.value, lab, env, None, weak=True)
+
+    def _forget_structure(self, name, env):
+        for pre in ("#", "#col:", "#len:", "#fld:"):
+            env.pop(pre + name, None)
 
     # -- expressions
     def expr(self, e, env) -> set:
@@ -463,36 +1652,177 @@ class LabelFlow:
         self.at[e] = lab
         return lab
 
+    def _free_name(self, name) -> set:
+        """labels of a name that is not a local of this function: a name of an enclosing function (closure), of the module, a builtin"""
+        if self.closure is not None and name in self.closure:
+            return set(self.closure[name])
+        out = self.s.outer_name(self.fi, name)
+        if out is not None:
+            return out
+        m = self.s.module_name(self.fi.rel, name, self.depth)
+        if m is not None:
+            return m
+        import builtins
+        if hasattr(builtins, name):
+            return set()
+        # AUDIT: a name with no binding the engine can see (star import, injected global): nothing is known about it
+        return {UNK}
+
+    def _typed_geometry(self, recv, env, depth=0):
+        """is the receiver known to be a layout / layout manager / grid object (the objects whose size, shape, starts, ... are those of
+        the rank's own block)?  True / False (known to be something else: an array, a display) / None (unknown)"""
+        if depth > 3:
+            return None
+        if isinstance(recv, ast.Name) and recv.id == "self":
+            return True if self.fi.cls in self.s.geometry_classes else False if self.fi.cls else None
+        types = self.s.type_of(recv, self.fi.node, self.fi.cls)
+        if types:
+            return True if any(t in self.s.geometry_classes for t in types) else False
+        if isinstance(recv, (ast.List, ast.Tuple, ast.Dict, ast.Set, ast.ListComp, ast.Constant, ast.BinOp, ast.JoinedStr, ast.Compare)):
+            return False
+        if isinstance(recv, ast.IfExp):
+            a, b = self._typed_geometry(recv.body, env, depth + 1), self._typed_geometry(recv.orelse, env, depth + 1)
+            return a if a == b else None
+        if isinstance(recv, ast.NamedExpr):
+            return self._typed_geometry(recv.value, env, depth + 1)
+        if isinstance(recv, ast.Call):
+            f = recv.func
+            if isinstance(f, ast.Attribute) and isinstance(f.value, ast.Name) and f.value.id in ("np", "numpy"):
+                return False
+            if isinstance(f, ast.Name) and f.id in ("list", "tuple", "dict", "set", "sorted", "range", "len", "zip", "enumerate", "str", "int", "float"):
+                return False
+            tg = self.s.resolve(recv, self.fi)
+            if tg and all(q.endswith(".__init__") for _, q in tg):
+                return True if any(q.split(".")[0] in self.s.geometry_classes for _, q in tg) else False
+            if isinstance(f, ast.Attribute) and f.attr in ("getLayout", "getLayoutHandler"):
+                return True
+            return None
+        if isinstance(recv, ast.Subscript):
+            # an element of a table of layouts is a layout; a slice / element of an array is an array or a number
+            inner = self._typed_geometry(recv.value, env, depth + 1)
+            if inner is not None:
+                return inner
+        if isinstance(recv, ast.Attribute) and recv.attr in UNIFORM_ATTR and recv.attr not in _AMBIGUOUS_ATTR and \
+                recv.attr not in ("availableLayouts",):
+            return False          # eta_grid, fullShape, ... of a layout: arrays / lists of global quantities
+        if isinstance(recv, ast.Attribute) and isinstance(recv.value, ast.Name) and recv.value.id == "self" and self.fi.cls:
+            k = self.s.attr_kind(self.fi.cls, recv.attr)
+            if k is not None:
+                return k
+        if isinstance(recv, ast.Name):
+            if recv.id in self._locals and recv.id not in self.fi.params:
+                vals = [n.value for n in ast.walk(self.fi.node) if isinstance(n, ast.Assign) and
+                        any(isinstance(t, ast.Name) and t.id == recv.id for t in n.targets)]
+                stores = [n for n in ast.walk(self.fi.node) if isinstance(n, ast.Name) and n.id == recv.id and isinstance(n.ctx, ast.Store)]
+                if vals and len(vals) == len(stores):
+                    ks = {self._typed_geometry(v, env, depth + 1) for v in vals}
+                    if len(ks) == 1:
+                        k = ks.pop()
+                        if k is not None:
+                            return k
+        # naming convention of the repository (documented API: arguments called layout / grid / manager are such objects)
+        if _GEOMETRY_NAME.search(src(recv).split(".")[-1].split("[")[0]):
+            return True
+        return None
+
+    def _attribute(self, e, env) -> set:
+        attr = e.attr
+        if isinstance(e.value, ast.Name) and e.value.id == "self" and self.fi.cls:
+            k = "self." + attr
+            base = set()
+            if attr in RANKDEP_ATTR:
+                # AUDIT: by name the attribute is block geometry / field data only on the classes of the layout and grid units
+                base = S(RANKDEP_ATTR[attr]) if self.fi.cls in self.s.geometry_classes else set()
+            if k in env:
+                return env[k] | base
+            known = self.s.attr_known(self.fi.cls, attr)
+            lab = self.s.attr_label(self.fi.cls, attr) | base
+            if not known and not base and attr not in UNIFORM_ATTR:
+                prop = self.s.property_labels(self.fi.cls, attr, self.depth)
+                if prop is not None:
+                    return lab | prop
+                if not self.s.is_method(self.fi.cls, attr):
+                    # AUDIT: no assignment to self.<attr> anywhere in the class hierarchy inside the analysed units (defined in a base
+                    # class outside them, by setattr, in __slots__/dataclass fields ...): unknown
+                    return lab | {UNK}
+            return lab
+        if isinstance(e.value, ast.Name) and self._module_alias(e.value.id):
+            return set()                       # an attribute of a module
+        if isinstance(e.value, ast.Name) and e.value.id in self.s.prog.classes and e.value.id not in self._locals:
+            return set()                       # class attribute / enum member / method object: fixed by the source text
+        inner = self.expr(e.value, env)
+        # a field of a record bound to a local
+        if isinstance(e.value, ast.Name) and ("#fld:" + e.value.id) in env and attr in env["#fld:" + e.value.id]:
+            return set(env["#fld:" + e.value.id][attr])
+        typed = self._typed_geometry(e.value, env)
+        if attr in UNIFORM_ATTR:
+            # AUDIT: `nprocs`, `fullShape`, `eta_grid`, ... are the same on every rank on layouts / grids / managers (global quantities
+            # of the decomposition).  On an object of unknown type the name says nothing: the labels of the object stand
+            if typed is True or (typed is None and attr not in _AMBIGUOUS_ATTR):
+                return set()
+            return inner
+        if attr in RANKDEP_ATTR:
+            L = RANKDEP_ATTR[attr]
+            if typed is True:
+                return inner | S(L)
+            if typed is False:
+                return inner               # size / shape of an array, a list: a function of how it was made (labels of the value)
+            if attr not in _AMBIGUOUS_ATTR and self.s.attr_only_in_geometry(attr):
+                return inner | S(L)        # the attribute exists on the layout / grid classes only
+            return inner | {L}             # by name only: not established
+        types = self.s.type_of(e.value, self.fi.node, self.fi.cls)
+        if types:
+            out, hit = set(inner), False
+            for t in types:
+                if self.s.attr_known(t, attr):
+                    out |= self.s.attr_label(t, attr)
+                    hit = True
+                else:
+                    prop = self.s.property_labels(t, attr, self.depth)
+                    if prop is not None:
+                        out |= prop
+                        hit = True
+                    elif self.s.is_method(t, attr):
+                        hit = True
+            if hit:
+                return out
+        return inner
+
     def _expr(self, e, env) -> set:
         if e is None or isinstance(e, ast.Constant):
             return set()
         if isinstance(e, ast.Name):
             if ("?" + e.id) in env:
                 self.__dict__.setdefault("none_at", {})[e] = set(env["?" + e.id])
-            return set(env.get(e.id, set()))
+            if e.id in env:
+                out = set(env[e.id])
+                if e.id in self._declared_out:
+                    out |= {UNK}          # rebound through a global / nonlocal declaration somewhere: not followed
+                return out
+            if e.id in self._locals:
+                return set()              # a local read before any assignment on this path (assigned later in a loop): no value yet
+            return self._free_name(e.id)
         if isinstance(e, ast.Attribute):
-            if isinstance(e.value, ast.Name) and e.value.id == "self" and self.fi.cls:
-                k = "self." + e.attr
-                base = set()
-                if e.attr in RANKDEP_ATTR:
-                    base = {RANKDEP_ATTR[e.attr]}
-                if k in env:
-                    return env[k] | base
-                return self.s.attr_label(self.fi.cls, e.attr) | base
-            if isinstance(e.value, ast.Name) and e.value.id in ("np", "numpy", "MPI", "math", "os", "h5py", "time",
-                                                                "operator", "warnings", "sparse"):
-                return set()
-            if e.attr in UNIFORM_ATTR:
-                self.expr(e.value, env)
-                return set()
-            inner = self.expr(e.value, env)
-            if e.attr in RANKDEP_ATTR:
-                return inner | {RANKDEP_ATTR[e.attr]}
-            return inner
+            return self._attribute(e, env)
         if isinstance(e, ast.Call):
             return self.call(e, env)
         if isinstance(e, ast.Subscript):
-            return self.expr(e.value, env) | self.expr(e.slice, env)
+            vl, sl = self.expr(e.value, env), self.expr(e.slice, env)
+            if isinstance(e.value, ast.Name):
+                k = _const_int(e.slice)
+                flds = env.get("#" + e.value.id)
+                if k is not None and flds is not None and -len(flds) <= k < len(flds):
+                    return set(flds[k])                     # one field of a tuple / record of known arity
+            rows = self._literal_rows(e.value) if isinstance(e.value, (ast.Name, ast.Attribute)) else None
+            if rows is not None and isinstance(e.value, ast.Name) is False or (rows is not None and e.value.id not in env):
+                # an entry of a table fixed by the source text (module constant / class attribute): the labels of the entries
+                t = self._const_table(e.value)
+                out = set(sl)
+                vals = list(t.values) if isinstance(t, ast.Dict) else rows
+                for r in vals:
+                    out |= self.expr(r, env)
+                return out
+            return vl | sl
         if isinstance(e, ast.Slice):
             return self.expr(e.lower, env) | self.expr(e.upper, env) | self.expr(e.step, env)
         if isinstance(e, (ast.BinOp,)):
@@ -533,8 +1863,26 @@ class LabelFlow:
             out = set()
             for g in e.generators:
                 il = self.expr(g.iter, env2)
-                out |= il
-                self.assign(g.target, il, env2, None)
+                order = self._hash_order(g.iter, env2)
+                rows = self._literal_rows(g.iter)
+                bound = self._bind_rows(g.target, rows) if rows is not None else None
+                cols = self._columns(g.iter, env2) if rows is None else None
+                if bound is not None:
+                    for t_, nodes in bound:
+                        lab_k = set()
+                        for r in nodes:
+                            lab_k |= self.expr(r, env2)
+                        self.assign(t_, lab_k, env2, None)
+                elif cols is not None and isinstance(g.target, (ast.Tuple, ast.List)) and len(cols) == len(g.target.elts) and \
+                        not any(isinstance(x, ast.Starred) for x in g.target.elts):
+                    ll = self.len_labels(g.iter, env2)
+                    for t_, l_ in zip(g.target.elts, cols):
+                        self.assign(t_, set(l_) | order | (ll if ll is not None else il), env2, None)
+                else:
+                    self.assign(g.target, il | order, env2, None)
+                # what the comprehension holds depends on the elements; how many it holds on the number of passes and the filters
+                ll = self.len_labels(g.iter, env2)
+                out |= (ll if ll is not None and (bound is not None or cols is not None) else il) | (order if not isinstance(e, ast.SetComp) else set())
                 for c in g.ifs:
                     out |= self.expr(c, env2)
             if isinstance(e, ast.DictComp):
@@ -544,8 +1892,12 @@ class LabelFlow:
             return out
         if isinstance(e, ast.Lambda):
             env2 = dict(env)
-            for a in e.args.args:
-                env2[a.arg] = set()
+            for a in ast.walk(e.args):
+                if isinstance(a, ast.arg):
+                    env2[a.arg] = set()
+                    self._forget(a.arg, env2)
+            for d in list(e.args.defaults) + [d for d in e.args.kw_defaults if d is not None]:
+                self.expr(d, env)
             return self.expr(e.body, env2)
         if isinstance(e, ast.JoinedStr):
             out = set()
@@ -553,12 +1905,18 @@ class LabelFlow:
                 out |= self.expr(v, env)
             return out
         if isinstance(e, ast.FormattedValue):
-            return self.expr(e.value, env)
+            return self.expr(e.value, env) | (self.expr(e.format_spec, env) if e.format_spec is not None else set())
         if isinstance(e, ast.NamedExpr):
             l = self.expr(e.value, env)
-            self.assign(e.target, l, env, None)
+            self.assign(e.target, l | self._pc_now, env, e.value)
             return l
-        out = set()
+        if isinstance(e, (ast.Await, ast.Yield, ast.YieldFrom)):
+            # AUDIT: what a generator is sent / an awaitable returns is not modelled
+            if getattr(e, "value", None) is not None:
+                self.expr(e.value, env)
+            return {UNK}
+        # AUDIT: an expression kind the flow does not model: the labels of its parts, and unknown on top
+        out = {UNK}
         for ch in ast.iter_child_nodes(e):
             if isinstance(ch, ast.expr):
                 out |= self.expr(ch, env)
@@ -571,57 +1929,146 @@ class LabelFlow:
         if isinstance(x, ast.Name):
             return self._none_of_name(x.id, env.get(x.id, set()), env.get("?" + x.id))
         if isinstance(x, ast.Attribute) and isinstance(x.value, ast.Name) and x.value.id == "self":
+            pres = self.s.attr_presence(self.fi.cls, x.attr) if self.fi.cls and ("self." + x.attr) not in env else None
+            if pres is not None:
+                return pres
             return self._expr(x, env)
-        return set()
+        if isinstance(x, (ast.List, ast.Tuple, ast.Dict, ast.Set, ast.ListComp, ast.BinOp, ast.Compare, ast.JoinedStr)):
+            return set()
+        # AUDIT: presence of any other expression (a call result, a subscript, an attribute of another object): its content labels,
+        # which cover whatever decided it
+        return self._expr(x, env)
+
+    def _fs_write(self, e, s, name, recv):
+        if s in _FS_WRITE_CALLS:
+            return True
+        if name in ("open", "File") and (recv is None or src(recv) in ("h5py", "io")):
+            mode = e.args[1] if len(e.args) > 1 else next((k.value for k in e.keywords if k.arg == "mode"), None)
+            if mode is None:
+                return False
+            if isinstance(mode, ast.Constant) and isinstance(mode.value, str):
+                return any(ch in mode.value for ch in "wax+")
+            return True
+        if recv is not None and name in _FS_WRITE_METHODS and not is_comm_expr(recv):
+            return name not in ("replace", "rename") or not isinstance(recv, ast.Constant)
+        return False
+
+    def _fs_read_label(self, argl):
+        # AUDIT: the state of the shared file system is the same for every rank only while nobody changes it.  After the function has
+        # modified the file system what a rank sees depends on when it looks: not established uniform (label CLOCK, not established)
+        return argl | {FS} | ({CLOCK} if self.fs_written else set())
 
     def call(self, e: ast.Call, env) -> set:
         f = e.func
         argl = set()
+        star = False
         for a in e.args:
             argl |= self.expr(a, env)
+            star = star or isinstance(a, ast.Starred)
+            if isinstance(a, ast.Starred) and isinstance(a.value, ast.Name) and ("#" + a.value.id) in env:
+                # *t with t a tuple / record of known fields: the expansion is known position by position
+                old_ = self.star_fields.get(a)
+                new_ = tuple(env["#" + a.value.id])
+                self.star_fields[a] = new_ if old_ is None else \
+                    (tuple(frozenset(x | y) for x, y in zip(old_, new_)) if len(old_) == len(new_) else ())
+            elif isinstance(a, ast.Starred) and isinstance(a.value, (ast.Tuple, ast.List)) and \
+                    not any(isinstance(x, ast.Starred) for x in a.value.elts):
+                self.star_fields[a] = tuple(frozenset(self.at.get(x, set())) for x in a.value.elts)
+            elif isinstance(a, ast.Starred):
+                self.star_fields[a] = ()
         for k in e.keywords:
             argl |= self.expr(k.value, env)
+            star = star or k.arg is None
         name = f.id if isinstance(f, ast.Name) else f.attr if isinstance(f, ast.Attribute) else ""
         recv = f.value if isinstance(f, ast.Attribute) else None
         s = src(f)
+        local_callee = isinstance(f, ast.Name) and f.id in self._locals
         # sources
-        if name in ("Get_rank", "Get_coords", "Get_cart_rank", "Get_topo"):
-            return {RANK}
-        if s in ("time.time", "time.perf_counter", "time.monotonic", "time.process_time", "time.clock") or \
-                (name in ("time", "perf_counter", "now") and recv is not None and src(recv) in ("time", "datetime", "datetime.datetime")):
-            return {CLOCK}
-        if s.startswith(("os.path.", "os.listdir", "os.stat", "os.getcwd")) or name in ("glob", "iglob") or \
-                (name == "File" and recv is not None and src(recv) == "h5py") or name == "open":
-            return argl | {FS}
-        if s in ("os.getpid", "random.random", "np.random.rand", "np.random.random", "id", "hash"):
-            return {RANK}
-        # unordered choices
-        if name in ("min", "max", "next", "list", "tuple", "iter", "sorted") and e.args:
-            a0 = e.args[0]
-            if isinstance(a0, ast.Name) and a0.id in self.setvars and name != "sorted":
-                fq = self.fi.qual.split(".")[-1]
-                if fq not in self.s.b4_ok:
-                    argl = argl | {HASH}
-        if name == "pop" and recv is not None and isinstance(recv, ast.Name) and recv.id in self.setvars:
+        if recv is not None and name in ("Get_rank", "Get_coords", "Get_topo"):
+            return S(RANK)
+        if recv is not None and name == "Get_cart_rank":
+            return argl | self.expr(recv, env)            # the rank AT the given coordinates: a function of the coordinates
+        if s in ("time.time", "time.perf_counter", "time.monotonic", "time.process_time", "time.clock", "time.time_ns",
+                 "time.perf_counter_ns", "MPI.Wtime") or \
+                (name in ("time", "perf_counter", "now", "today", "utcnow") and recv is not None and src(recv) in ("time", "datetime", "datetime.datetime")):
+            return S(CLOCK)
+        if self._fs_write(e, s, name, recv):
+            self.fs_written = True
+        if s.startswith(("os.path.", "os.listdir", "os.stat", "os.getcwd", "os.scandir", "os.access", "os.walk", "glob.")) or \
+                name in ("glob", "iglob") or (name == "File" and recv is not None and src(recv) == "h5py") or \
+                (name == "open" and not local_callee) or s in ("np.load", "np.loadtxt", "np.fromfile", "np.genfromtxt", "json.load") or \
+                (recv is not None and name in _FS_READ_METHODS and not is_comm_expr(recv) and
+                 self._typed_geometry(recv, env) is not True and not (isinstance(recv, ast.Name) and ("#len:" + recv.id) in env)):
+            return self._fs_read_label(argl | (self.expr(recv, env) if recv is not None and name in _FS_READ_METHODS else set()))
+        if s in ("os.getpid", "os.getppid", "id", "os.urandom", "uuid.uuid4", "uuid.uuid1", "socket.gethostname", "platform.node") \
+                and not local_callee:
+            return S(RANK)
+        if (s == "hash" and not local_callee):
+            # AUDIT: the hash of a string is salted per interpreter; the hash of an integer is the integer
+            a0 = e.args[0] if e.args else None
+            if isinstance(a0, ast.Constant) and isinstance(a0.value, (int, float)) or \
+                    (isinstance(a0, ast.Call) and isinstance(a0.func, ast.Name) and a0.func.id in ("int", "len", "float")):
+                return argl
+            if isinstance(a0, (ast.JoinedStr,)) or (isinstance(a0, ast.Constant) and isinstance(a0.value, str)) or \
+                    (isinstance(a0, ast.Call) and isinstance(a0.func, ast.Name) and a0.func.id in ("str", "repr")):
+                return argl | S(HASH)
             return argl | {HASH}
+        if s.startswith(("random.", "np.random.", "numpy.random.")) or (isinstance(f, ast.Attribute) and src(f.value).endswith("random")
+                                                                         and is_comm_expr(f.value) is False and name in
+                                                                         ("random", "rand", "randn", "randint", "choice", "shuffle", "uniform", "normal", "sample", "permutation")):
+            if name in ("seed", "default_rng", "RandomState", "Random", "SeedSequence"):
+                return argl
+            # AUDIT: a generator that was never seeded draws from the entropy of the process; after a seed every rank draws the same
+            # numbers if the seed is the same: established only when the unit never seeds
+            return argl | (S(RANK) if not self.s.unit_seeds(self.fi.rel) else {RANK})
+        # unordered choices
+        if name in ("min", "max", "next", "list", "tuple", "iter", "sorted", "enumerate", "zip", "reversed") and e.args and isinstance(f, ast.Name):
+            k = self._set_kind(e.args[0], env)
+            if k is not None and name != "sorted":
+                total = name in ("min", "max") and len(e.args) == 1 and not any(kw.arg == "key" for kw in e.keywords)
+                fq = self.fi.qual.split(".")[-1]
+                if fq not in self.s.b4_ok and not total:     # min / max without a key: the element itself, whatever the order
+                    argl = argl | self._hash_label(k)
+        if name == "pop" and recv is not None and not e.args and self._set_kind(recv, env) is not None:
+            return argl | self.expr(recv, env) | self._hash_label(self._set_kind(recv, env))
         # sanitisers
+        # AUDIT: the result of Allreduce / bcast / allgather / Get_size is the same on every rank OF THAT communicator; collectives
+        # governed by it on the same communicator or on one of its sub-communicators are matched (a quantity of a sub-communicator
+        # used to govern a collective of the parent is the subject of B11 in the props file, not of the labels)
         if recv is not None and name in SANITISERS and is_comm_expr(recv):
             return set()
         if recv is not None and name in COLLECTIVE_OPS and is_comm_expr(recv):
-            if name in ("Create_cart", "Sub", "Split", "Dup"):
+            if name in ("Create_cart", "Sub", "Split", "Dup", "Create_graph", "Create"):
                 return set()          # a communicator object
-            return {RANK}             # rooted results exist at the root only
+            return S(RANK)            # rooted results exist at the root only; scattered / scanned results differ by construction
+        if recv is not None and is_comm_expr(recv) and name in _POINT_TO_POINT:
+            self.expr(recv, env)
+            return argl | {RANK, DATA}     # what another rank sent: not modelled further (not established)
         recl = self.expr(recv, env) if recv is not None else set()
         if name in ("mpi_starts", "mpi_lengths"):
             return {l for l in argl}
+        if name == "len" and isinstance(f, ast.Name) and not local_callee and len(e.args) == 1:
+            ll = self.len_labels(e.args[0], env)
+            if ll is not None:
+                return ll
+        if name == "getattr" and isinstance(f, ast.Name) and not local_callee and len(e.args) >= 2 and \
+                isinstance(e.args[1], ast.Constant) and isinstance(e.args[1].value, str):
+            fake = ast.Attribute(value=e.args[0], attr=e.args[1].value, ctx=ast.Load())
+            return self._attribute(fake, env) | (self.at.get(e.args[2], set()) if len(e.args) > 2 else set())
         # resolved repo function: use its return summary
-        tg = self.s.prog.resolve(e, self.fi.rel)
-        tg = [(r, q) for r, q, n in tg if (r, q) in self.s.funcs]
+        tg = self.s.resolve(e, self.fi)
         if tg and self.depth < 5:
             out = set()
             for key in tg:
                 callee = self.s.funcs[key]
-                rl = self.s.return_labels(key, self.depth)
+                if callee.outer is not None and callee.outer is self.fi:
+                    # a function defined inside this one: its free names are the locals of this function as they are now
+                    sub = LabelFlow(self.s, callee, depth=self.depth + 1, closure=self._closure_view(env))
+                    sub.run()
+                    rl = sub.ret | (self._generator_labels(callee, sub))
+                    self.fs_written = self.fs_written or sub.fs_written
+                else:
+                    rl = self.s.return_labels(key, self.depth)
                 out |= {l for l in rl if not l.startswith("P:")}
                 pmap = self.bind(e, callee, env)
                 for p in params_of(rl):
@@ -629,20 +2076,85 @@ class LabelFlow:
                 if "self" in params_of(rl) or callee.cls:
                     out |= {l for l in recl if not l.startswith("P:")} if callee.qual.endswith("__init__") is False else set()
             return out
-        return argl | recl
+        if tg:
+            return argl | recl | {UNK}      # AUDIT: call depth exhausted: the callee's summary was not computed
+        return self._unresolved_call(e, f, name, recv, argl, recl, env, local_callee)
+
+    def _closure_view(self, env):
+        view = dict(self.closure or {})
+        for k, v in env.items():
+            if k[0] not in "#?":
+                view[k] = v
+        return view
+
+    def _generator_labels(self, callee, sub):
+        """labels of the iterable a generator function returns: what it yields; UNK when a yield is used as an expression (values sent
+        into the generator are not followed)"""
+        ys = [n for n in ast.walk(callee.node) if isinstance(n, (ast.Yield, ast.YieldFrom)) and self.s._owner(n) is callee.node]
+        if not ys:
+            return set()
+        as_stmt = all(isinstance(parent(n), ast.Expr) for n in ys)
+        return set(sub.yielded) | (set() if as_stmt else {UNK})
+
+    def _unresolved_call(self, e, f, name, recv, argl, recl, env, local_callee):
+        """AUDIT: a call the program index does not resolve.  The result is taken to be a function of the receiver and the arguments
+        only for the callees listed as such (builtins, numpy / math / ... namespaces, methods of the built-in containers and arrays,
+        functions of repository modules outside the analysed units that do not touch MPI / clocks / random); anything else: unknown"""
+        if isinstance(f, ast.Name):
+            if local_callee:
+                # a local bound to a lambda / a function object / a class: what it computes is in its own labels (lambda bodies are
+                # labelled where they are written) - when it is a parameter or the result of a call, unknown
+                v = self._single_def(f.id)
+                if isinstance(v, ast.Lambda):
+                    return argl | env.get(f.id, set())
+                return argl | env.get(f.id, set()) | {UNK}
+            import builtins
+            if f.id in _PURE_BUILTINS or (hasattr(builtins, f.id) and f.id not in ("input", "eval", "exec", "id", "hash", "open", "globals",
+                                                                                "locals", "__import__", "compile", "breakpoint")):
+                return argl
+            if f.id in self.s.prog.classes or self.s.record_fields(e, self.fi) is not None:
+                return argl                 # a class of the program without __init__ in the units / a record type (namedtuple)
+            k = self.s.external_kind(self.fi.rel, f.id)
+            if k == "pure":
+                return argl
+            return argl | {UNK}
+        if isinstance(f, ast.Attribute):
+            root = f.value
+            while isinstance(root, ast.Attribute):
+                root = root.value
+            if isinstance(root, ast.Name) and root.id in _PURE_MODULES and self._module_alias(root.id):
+                return argl
+            if isinstance(root, ast.Name) and root.id not in self._locals and self.s.external_kind(self.fi.rel, root.id) == "pure":
+                return argl
+            if is_comm_expr(recv) and name not in _PURE_METHODS:
+                return argl | recl | {UNK}
+            # AUDIT: a method the program index does not resolve, on a receiver that is not a communicator: a method of a built-in
+            # container / string / array / library object (methods of the classes of the analysed units are resolved by the index,
+            # by type or by the uniqueness of their name): its result is a function of the receiver and the arguments
+            return argl | recl
+        # f(...)(...), table[k](...), (lambda ...)(...): the callee is a computed value
+        fl = self.expr(f, env)
+        if isinstance(f, ast.Lambda):
+            return argl | fl
+        return argl | fl | {UNK}
 
     def call_elems(self, e: ast.Call, env, n):
         """per-element labels of a tuple-returning repo call, or None"""
-        tg = self.s.prog.resolve(e, self.fi.rel)
-        tg = [(r, q) for r, q, nn in tg if (r, q) in self.s.funcs]
+        tg = self.s.resolve(e, self.fi)
         if not tg or self.depth >= 5:
             return None
-        out = [set() for _ in range(n)]
+        out = None
         for key in tg:
             callee = self.s.funcs[key]
+            if callee.outer is not None and callee.outer is self.fi:
+                return None
             self.s.return_labels(key, self.depth)
             el = getattr(callee, "ret_elems", None)
-            if el is None or len(el) != n:
+            if el is None or (n is not None and len(el) != n):
+                return None
+            if out is None:
+                out = [set() for _ in el]
+            elif len(out) != len(el):
                 return None
             pmap = self.bind(e, callee, env)
             for i, rl in enumerate(el):
@@ -663,7 +2175,61 @@ class LabelFlow:
         out = {}
         va = callee.node.args.vararg.arg if callee.node.args.vararg else None
         kw = callee.node.args.kwarg.arg if callee.node.args.kwarg else None
-        pos = [p for p in params if p not in (va, kw)]
+        kwonly = {a.arg for a in callee.node.args.kwonlyargs}
+        pos = [p for p in params if p not in (va, kw) and p not in kwonly]
+        named = [p for p in params if p not in (va, kw)]
+        flat_args = []
+        for a in call.args:
+            sf = self.star_fields.get(a) if isinstance(a, ast.Starred) else None
+            if isinstance(a, ast.Starred) and sf:
+                flat_args.extend(("fields", l) for l in sf)
+            else:
+                flat_args.append(("node", a))
+        if not any(k == "node" and isinstance(a, ast.Starred) for k, a in flat_args) and not any(k.arg is None for k in call.keywords) \
+                and any(k == "fields" for k, a in flat_args):
+            # every star-expanded actual is a tuple of known fields: bound position by position
+            for i, (k_, a) in enumerate(flat_args):
+                if k_ == "node":
+                    l = self.at.get(a)
+                    if l is None:
+                        l = self.expr(a, env)
+                    nn = self.noneness_actual(a)
+                else:
+                    l, nn = set(a), {x for x in a if not x.startswith("P:")} | {x + "?" for x in a if x.startswith("P:") and not x.endswith("?")}
+                if i < len(pos):
+                    out[pos[i]] = out.get(pos[i], set()) | l
+                    out[pos[i] + "?"] = nn
+                elif va:
+                    out[va] = out.get(va, set()) | l
+            for k in call.keywords:
+                l = self.at.get(k.value)
+                if l is None:
+                    l = self.expr(k.value, env)
+                if k.arg in named:
+                    out[k.arg] = out.get(k.arg, set()) | l
+                    out[k.arg + "?"] = self.noneness_actual(k.value)
+                elif kw:
+                    out[kw] = out.get(kw, set()) | l
+            return out
+        if any(isinstance(a, ast.Starred) for a in call.args) or any(k.arg is None for k in call.keywords):
+            self.inexact_binding.add(call)
+            # AUDIT: star-expanded actuals: which parameter takes which value is not read off the call.  Every parameter that is not
+            # bound by an explicit keyword may take any of the expanded values: their labels, none of them established, and UNK
+            pool = {UNK}
+            for a in list(call.args) + [k.value for k in call.keywords if k.arg is None]:
+                l = self.at.get(a)
+                if l is None:
+                    l = self.expr(a, env)
+                pool |= weaken(l)
+            explicit = {}
+            for k in call.keywords:
+                if k.arg is not None:
+                    l = self.at.get(k.value)
+                    explicit[k.arg] = l if l is not None else self.expr(k.value, env)
+            for p in named + [x for x in (va, kw) if x]:
+                out[p] = set(explicit[p]) if p in explicit else set(pool)
+                out[p + "?"] = {UNK}
+            return out
         for i, a in enumerate(call.args):
             l = self.at.get(a)
             if l is None:
@@ -677,11 +2243,18 @@ class LabelFlow:
             l = self.at.get(k.value)
             if l is None:
                 l = self.expr(k.value, env)
-            if k.arg in pos:
+            if k.arg in named:
                 out[k.arg] = out.get(k.arg, set()) | l
                 out[k.arg + "?"] = self.noneness_actual(k.value)
             elif kw:
                 out[kw] = out.get(kw, set()) | l
+        # parameters left to their default value: the default expression, evaluated once where the function is defined
+        a_ = callee.node.args
+        defaults = dict(zip([x.arg for x in (a_.posonlyargs + a_.args)][len(a_.posonlyargs + a_.args) - len(a_.defaults):], a_.defaults))
+        defaults.update({x.arg: d for x, d in zip(a_.kwonlyargs, a_.kw_defaults) if d is not None})
+        for p, d in defaults.items():
+            if p not in out and not isinstance(d, ast.Constant):
+                out[p] = self.s.default_labels(callee, d)
         return out
 
     def _maybe_none_local(self, name):
@@ -705,6 +2278,9 @@ class LabelFlow:
         if isinstance(a, ast.Name):
             return self._none_of_name(a.id, self.at.get(a, set()), getattr(self, "none_at", {}).get(a))
         if isinstance(a, ast.Attribute) and isinstance(a.value, ast.Name) and a.value.id == "self":
+            pres = self.s.attr_presence(self.fi.cls, a.attr) if self.fi.cls else None
+            if pres is not None:
+                return pres
             return set(self.at.get(a, set()))
         return set()
 
@@ -737,10 +2313,11 @@ class Tracer:
     statement list; `after` is the continuation in the enclosing blocks, used only to
     compare an arm that exits early with the arm that falls through."""
 
-    def __init__(self, spmd: SPMD, fi: FuncInfo, lf: LabelFlow):
+    def __init__(self, spmd: SPMD, fi: FuncInfo, lf: LabelFlow, chk=None):
         self.s, self.fi, self.lf = spmd, fi, lf
-        self.chk = spmd.chk
+        self.chk = chk if chk is not None else spmd.chk
         self.required: dict[str, str] = {}
+        self.required_strong: set[str] = set()      # parameters whose influence on the collectives is established
         self.ev_nodes = set(fi.collective_sites) | {c for c, _ in fi.callee_sites}
         self.callee_of = {c: tg for c, tg in fi.callee_sites}
         self._cont_cache = {}
@@ -786,10 +2363,15 @@ class Tracer:
             p = parent(p)
         return p
 
-    def note_required(self, labels, why):
+    def note_required(self, labels, why, established_dependency=True):
+        """the parameters in `labels` govern collectives.  When the dependency itself is not established (the labels are those of
+        the CONTENT of an iterable whose length decides the trip count), the requirement is recorded as weak: an actual that
+        differs between ranks is then UNDECIDED, not VIOLATED"""
         for p in params_of(labels):
             if p != "self":
                 self.required.setdefault(p, why)
+                if established_dependency:
+                    self.required_strong.add(p)
 
     @staticmethod
     def _consistent(a, b):
@@ -856,6 +2438,17 @@ class Tracer:
             nu = nonuniform(tl)
             tsrc = src(st.test)
             if not nu:
+                if UNK in tl and (self.has_events(st.body) or self.has_events(st.orelse) or (exits and self.has_events(rest + after))):
+                    # AUDIT: the guard went through a construct the label flow does not model: whether it is the same on every rank is
+                    # not known.  Harmless when both alternatives issue the same collectives; otherwise UNDECIDED
+                    cont_ = self.cont_paths(rest, after) if any(p.exited for p in pa + pb) else [Path((), (), None)]
+                    ok_, why_ = self._balanced(self._with_cont(pa, cont_), self._with_cont(pb, cont_))
+                    if not ok_:
+                        self.chk.ob("B1-balanced-region", st, tsrc, None,
+                                    "the guard depends on a value the label analysis does not follow (an unresolved call, an attribute of "
+                                    "an object of unknown type, star-expanded arguments): whether it is rank-uniform is not decided, and "
+                                    "its alternatives issue different collective sequences: " + why_[:200],
+                                    file=self.fi.rel, func=self.fi.qual, facts={"labels": show(tl)})
                 if self.has_events(st.body) or self.has_events(st.orelse) or \
                         (exits and self.has_events(rest + after)):
                     # a guard whose alternatives issue the same collectives (after expanding the functions they call) may differ
@@ -886,6 +2479,16 @@ class Tracer:
                  any(p.exited in ("return", "break", "continue") for p in pa + pb))
             if involved:
                 ok, why = self._balanced(full_a, full_b)
+                if not ok:
+                    # AUDIT: VIOLATED says "ranks take different alternatives AND the alternatives issue different collectives".
+                    # (1) the guard differs between ranks: at least one of its labels is ESTABLISHED (explicit source through
+                    #     modelled constructs), else UNDECIDED;
+                    # (2) the sequences differ: compared event by event (operation, communicator, root, reduction op; calls by callee).
+                    #     A difference that is only one of SPELLING (another name for the communicator / root, another callee that
+                    #     issues the same flat sequence of collectives) is not a difference: re-compared on the flat sequences
+                    #     with locals resolved; when that comparison cannot be made (loops, unresolved calls) and the operations
+                    #     are the same in the same order, UNDECIDED.
+                    ok = self._recheck_balance(full_a, full_b, ok, established(tl))
                 exempt = None
                 for (g, fn), reason in EXEMPT_GUARDS.items():
                     if tsrc == g and self.fi.qual.split(".")[-1] == fn:
@@ -893,14 +2496,20 @@ class Tracer:
                 if exempt and not ok:
                     self.chk.ob("B1-exempt-guard", st, tsrc, True,
                                 f"named exemption: {exempt}", file=self.fi.rel, func=self.fi.qual,
-                                facts={"labels": sorted(tl)})
+                                facts={"labels": show(tl)})
                 else:
                     self.chk.ob("B1-balanced-region", st, tsrc, ok,
                                 ("rank-dependent guard (labels %s); " % sorted(nu)) +
                                 ("all alternatives issue the same collective sequence" if ok else
-                                 "alternatives issue different collective sequences: " + why),
+                                 "alternatives issue different collective sequences: " + why if ok is False else
+                                 "the alternatives are written with different collective sequences (" + why[:160] + "); " +
+                                 ("the labels of the guard come from heuristics only (an attribute name on an object of unknown type, "
+                                  "a value the analysis does not follow): that it differs between ranks is not established"
+                                  if not established(tl) else
+                                  "they differ in spelling only (same operations in the same order): whether they are the same "
+                                  "collectives was not established")),
                                 file=self.fi.rel, func=self.fi.qual,
-                                facts={"labels": sorted(tl), "arm_true": [repr(p.events) for p in full_a][:4],
+                                facts={"labels": show(tl), "arm_true": [repr(p.events) for p in full_a][:4],
                                        "arm_false": [repr(p.events) for p in full_b][:4]})
             return self._dedupe(pa + pb)
         if isinstance(st, (ast.For, ast.AsyncFor, ast.While)):
@@ -916,20 +2525,34 @@ class Tracer:
                 nu = nonuniform(lab)
                 cont = self.cont_paths(rest, after)
                 if any(p.events for p in cont):
-                    self.chk.ob("B1-early-return", st, src(ctl), not nu,
+                    # AUDIT: a return statement of this function inside a loop that issues no collective, collectives follow the
+                    # loop, and the conditions under which the return is reached (enclosing tests, the loop itself, earlier
+                    # break / continue) carry an ESTABLISHED rank-dependent label; heuristic labels / unknown values: UNDECIDED
+                    self.chk.ob("B1-early-return", st, src(ctl), decide(lab),
                                 "early return inside a loop, before later collectives, is taken under " +
-                                ("rank-uniform conditions" if not nu else f"rank-dependent conditions {sorted(nu)}"),
-                                file=self.fi.rel, func=self.fi.qual, facts={"labels": sorted(lab)})
+                                ("rank-uniform conditions" if decide(lab) else f"rank-dependent conditions {sorted(nu)}" if decide(lab) is False
+                                 else f"conditions whose variation between ranks is not established (labels {show(lab)})"),
+                                file=self.fi.rel, func=self.fi.qual, facts={"labels": show(lab)})
                     self.note_required(lab, f"early return in loop `{src(ctl)}` of {self.fi.qual}")
                 mark = f"<return inside loop {src(ctl)}>"
                 return [Path(((mark, True),), (), "return"), Path(((mark, False),), (), None)]
             tl = self.labels(ctl)
             nu = nonuniform(tl)
-            self.chk.ob("B1-loop-trip-uniform", st, src(ctl), not nu,
-                        "loop containing collectives has a rank-uniform trip condition" if not nu else
-                        f"loop containing collectives has a rank-dependent trip condition (labels {sorted(nu)})",
-                        file=self.fi.rel, func=self.fi.qual, facts={"labels": sorted(tl)})
-            self.note_required(tl, f"loop bound `{src(ctl)}` governs collectives in {self.fi.qual}")
+            # AUDIT: the labels of a `while` test / of the arguments of range() are those of the number of passes.  For any other
+            # iterable the flow records the labels of its LENGTH when it knows them (displays, tables, lists built by append /
+            # comprehension); when it only has the labels of the CONTENT (an array of rank-local data has the same number of rows
+            # everywhere) a rank-dependent label does not establish a rank-dependent trip count: UNDECIDED
+            verdict = decide(tl)
+            if verdict is False and isinstance(st, (ast.For, ast.AsyncFor)) and not self.lf.trip_known(st.iter):
+                verdict = None
+            self.chk.ob("B1-loop-trip-uniform", st, src(ctl), verdict,
+                        "loop containing collectives has a rank-uniform trip condition" if verdict else
+                        f"loop containing collectives has a rank-dependent trip condition (labels {sorted(nu)})" if verdict is False else
+                        f"loop containing collectives: the labels {show(tl)} of `{src(ctl)[:60]}` do not establish whether every rank "
+                        "makes the same number of passes (labels of the content of the iterable / heuristic labels / unmodelled values)",
+                        file=self.fi.rel, func=self.fi.qual, facts={"labels": show(tl)})
+            self.note_required(tl, f"loop bound `{src(ctl)}` governs collectives in {self.fi.qual}",
+                               not isinstance(st, (ast.For, ast.AsyncFor)) or self.lf.trip_known(st.iter))
             body = self.paths(st.body, rest + after)
             for p in body:
                 if p.exited == "break":
@@ -937,9 +2560,13 @@ class Tracer:
                     for n in ast.walk(st):
                         if isinstance(n, ast.Break):
                             lab |= self.labels(n)
-                    if nonuniform(lab):
-                        self.chk.ob("B1-loop-trip-uniform", st, "break in " + src(ctl), False,
-                                    f"loop containing collectives is left by a rank-dependent break {sorted(nonuniform(lab))}",
+                    if nonuniform(lab) or UNK in lab:
+                        # AUDIT: a break statement of this loop is reached under conditions with an ESTABLISHED rank-dependent label
+                        self.chk.ob("B1-loop-trip-uniform", st, "break in " + src(ctl), False if decide(lab) is False else None,
+                                    f"loop containing collectives is left by a rank-dependent break {sorted(nonuniform(lab))}"
+                                    if decide(lab) is False else
+                                    f"loop containing collectives is left by a break whose conditions (labels {show(lab)}) are not "
+                                    "established to be the same on every rank",
                                     file=self.fi.rel, func=self.fi.qual)
                     break
             bsig = sorted({repr((p.choices, p.events, p.exited)) for p in body})
@@ -975,12 +2602,57 @@ class Tracer:
                             "collective inside an exception handler is outside the enumerated idioms",
                             file=self.fi.rel, func=self.fi.qual)
             return self.paths(body, rest + after)
-        if isinstance(st, (ast.FunctionDef, ast.ClassDef)):
+        if isinstance(st, (ast.FunctionDef, ast.AsyncFunctionDef, ast.ClassDef)):
             return None
+        if st.__class__.__name__ in ("Match", "TryStar"):
+            # AUDIT: statement kinds whose alternatives the trace does not enumerate
+            inner = [x for x in ast.walk(st) if x in self.ev_nodes]
+            if inner or self.has_ret([st], (ast.Return, ast.Break, ast.Continue)):
+                self.chk.ob("B1-unmodelled-statement", st, st.__class__.__name__.lower(), None,
+                            f"collectives / exits inside a `{st.__class__.__name__.lower()}` statement are outside the enumerated idioms",
+                            file=self.fi.rel, func=self.fi.qual)
+            return [Path((), tuple(Event("coll", ("?" + src(x.func), None, None, None), x) for x in inner), None)] if inner else None
         evs = self.events_of(st)
         if not evs:
             return None
+        self._conditional_events(st, evs)
         return [Path((), tuple(evs), None)]
+
+    def _conditional_events(self, st, evs):
+        """AUDIT: an event inside a conditional expression, the later operands of and / or, a comprehension or a generator expression
+        is issued conditionally / several times; the trace counts it once, unconditionally.  That is right when the governing
+        test / iterable is rank-uniform (then every rank evaluates it alike: the parameters it reads are required uniform);
+        otherwise the event list of the statement is not what every rank issues: UNDECIDED"""
+        for ev in evs:
+            ch, p = ev.node, parent(ev.node)
+            while p is not None and p is not st:
+                labs = None
+                if isinstance(p, ast.IfExp) and ch is not p.test:
+                    labs = self.labels(p.test)
+                elif isinstance(p, ast.BoolOp) and p.values and ch is not p.values[0]:
+                    labs = set()
+                    for v in p.values[:p.values.index(ch)] if ch in p.values else p.values:
+                        labs |= self.labels(v)
+                elif isinstance(p, (ast.ListComp, ast.SetComp, ast.DictComp, ast.GeneratorExp)):
+                    labs = set()
+                    for g in p.generators:
+                        labs |= self.labels(g.iter)
+                        for c in g.ifs:
+                            labs |= self.labels(c)
+                    if isinstance(p, ast.GeneratorExp):
+                        labs = labs | {UNK}          # evaluated lazily, where it is consumed
+                elif isinstance(p, ast.Lambda):
+                    labs = {UNK}
+                if labs is not None:
+                    v = decide(labs)
+                    if v is True:
+                        self.note_required(labs, f"conditional expression around `{src(ev.node)[:40]}` in {self.fi.qual}")
+                    else:
+                        self.chk.ob("B1-conditional-collective", ev.node, src(p)[:80], None,
+                                    f"the collective `{src(ev.node)[:50]}` sits inside `{src(p)[:60]}`, evaluated under conditions labelled "
+                                    f"{show(labs)}: whether every rank issues it the same number of times is not decided",
+                                    file=self.fi.rel, func=self.fi.qual, facts={"labels": show(labs)})
+                ch, p = p, parent(p)
 
     def _with_cont(self, ps, cont):
         out = []
@@ -1029,6 +2701,152 @@ class Tracer:
                 acc |= f
         return fa == fb and all(len(x) <= 1 or True for x in fa)
 
+    def _resolved(self, e):
+        """source text of an expression with the single-assignment locals of the function written out"""
+        if e is None:
+            return None
+        try:
+            from .resolve import inline_locals, expand
+            env = self.__dict__.get("_inl")
+            if env is None:
+                env = self._inl = {k: v for k, v in inline_locals(self.fi.node).items()
+                                   if not any(isinstance(x, (ast.Call, ast.Lambda)) for x in ast.walk(v))}
+            t = expand(e, env)
+
+            class _Pick(ast.NodeTransformer):
+                def visit_Subscript(self, node):
+                    self.generic_visit(node)
+                    k = _const_int(node.slice)
+                    if isinstance(node.value, (ast.Tuple, ast.List)) and k is not None and -len(node.value.elts) <= k < len(node.value.elts) \
+                            and not any(isinstance(x, ast.Starred) for x in node.value.elts):
+                        return node.value.elts[k]          # (a, b)[1] -> b
+                    return node
+            import copy
+            t = _Pick().visit(copy.deepcopy(t))
+            return src(t)
+        except Exception:
+            return src(e)
+
+    def _direct_seq(self, events):
+        """[(op, communicator, root, reduction op)] with locals resolved when every event is a direct collective, else None"""
+        out = []
+        for ev in events:
+            if ev.kind == "call":
+                # a function defined inside this one (closure) with a single straight-line sequence of direct collectives whose
+                # communicator / root / op do not mention its own parameters or locals: the same expressions as written here
+                tg = self.callee_of.get(ev.node) or []
+                if len(tg) != 1 or self.s.funcs[tg[0]].outer is not self.fi:
+                    return None
+                cfi = self.s.funcs[tg[0]]
+                sub = Tracer(self.s, cfi, LabelFlow(self.s, cfi), chk=_NullCheck())
+                ps = [p_ for p_ in sub.paths(cfi.node.body) if p_.exited != "raise"]
+                if len(ps) != 1:
+                    return None
+                inner = sub._direct_seq(ps[0].events)
+                own = self.s._local_names(cfi) | set(cfi.params)
+                if inner is None or any(t_ is not None and (set(re.findall(r"[A-Za-z_]\w*", t_)) & own) for x in inner for t_ in x[1:]):
+                    return None
+                out.extend(inner)
+                continue
+            if ev.kind != "coll" or not isinstance(ev.node, ast.Call) or not isinstance(ev.node.func, ast.Attribute) or \
+                    ev.node.func.attr not in COLLECTIVE_OPS:
+                return None
+            c = ev.node
+            root = kwarg(c, "root")
+            if root is None and ev.sig[0] in ROOT_POS and len(c.args) > ROOT_POS[ev.sig[0]]:
+                root = c.args[ROOT_POS[ev.sig[0]]]
+            out.append((ev.sig[0], self._resolved(c.func.value), self._resolved(root), self._resolved(kwarg(c, "op"))))
+        return tuple(out)
+
+    def _ops_only(self, events):
+        """the operations in order, calls expanded through the callees' flat summaries where that is possible (else the callee names)"""
+        seqs = {()}
+        for ev in events:
+            if ev.kind == "coll":
+                item = {(str(ev.sig[0]),)}
+            elif ev.kind == "call":
+                item = None
+                tg = self.callee_of.get(ev.node)
+                if tg:
+                    sms = [self.s.flat_summary(t) for t in tg]
+                    if all(sm is not None for sm in sms):
+                        item = {tuple(str(x[0]) for x in q) for sm in sms for q in sm}
+                if item is None:
+                    item = {("call:" + "/".join(ev.sig[0]),)}
+            else:
+                item = {("loop:" + repr(ev.body),)}
+            seqs = {a + b for a in seqs for b in item}
+            if len(seqs) > 64:
+                return None
+        return seqs
+
+    def _recheck_balance(self, a, b, ok, est):
+        """second look at two alternatives whose event lists differ: True (the same collectives after all), False (established
+        difference under an established rank-dependent guard), None (not decided).  Pair by pair, like _balanced."""
+        a = [p for p in a if p.exited != "raise"]
+        b = [p for p in b if p.exited != "raise"]
+        worst = True
+        for p in a:
+            for q in b:
+                if not self._consistent(p.choices, q.choices) or p.events == q.events:
+                    continue
+                k = self._pair_difference(p.events, q.events)
+                if k == "real":
+                    return False if est else None
+                if k == "unknown":
+                    worst = None
+        return worst
+
+    @staticmethod
+    def _call_names(events):
+        return [ev.sig for ev in events]
+
+    @staticmethod
+    def _strictly_nested(ea, eb):
+        """one event list is the other with events removed (an alternative that skips collectives the other issues)"""
+        sa, sb = [repr(e) for e in ea], [repr(e) for e in eb]
+        if len(sa) == len(sb):
+            return False
+        short, long_ = (sa, sb) if len(sa) < len(sb) else (sb, sa)
+        it = iter(long_)
+        return all(x in it for x in short)
+
+    def _pair_difference(self, ea, eb):
+        """'same' (the same collectives, spelt through locals), 'real' (different operations / number of operations / an explicit
+        root or reduction op against none or against another constant), 'unknown' (same operations in the same order, the
+        communicators / roots are different expressions that may denote the same object; or calls whose sequences were not expanded)"""
+        da, db = self._direct_seq(ea), self._direct_seq(eb)
+        if da is not None and db is not None:
+            if da == db:
+                return "same"
+            if len(da) != len(db) or [x[0] for x in da] != [x[0] for x in db]:
+                return "real"
+            kind = "same"
+            for x, y in zip(da, db):
+                for i in (1, 2, 3):
+                    if x[i] == y[i]:
+                        continue
+                    lit = lambda t: t is None or re.fullmatch(r"-?\d+|MPI\.[A-Z_]+|None|True|False", t) is not None
+                    if lit(x[i]) or lit(y[i]):
+                        return "real"
+                    kind = "unknown"       # two expressions: may be two names of one communicator / root
+            return kind
+        oa, ob_ = self._ops_only(ea), self._ops_only(eb)
+        if oa is None or ob_ is None:
+            return "unknown"
+        expanded = not any(y.startswith(("call:", "loop:")) for sq in oa | ob_ for y in sq)
+        if oa == ob_:
+            return "unknown"
+        # different operation sequences: established when every call was expanded to the collectives it issues, or when even the
+        # callee names / loops agree nowhere
+        unexp_a = any(y.startswith(("call:", "loop:")) for sq in oa for y in sq)
+        unexp_b = any(y.startswith(("call:", "loop:")) for sq in ob_ for y in sq)
+        if expanded or (not (oa & ob_) and not (unexp_a and unexp_b)):
+            return "real"
+        # both alternatives go through calls / loops that were not expanded to the collectives they issue: not compared
+        # (the engine's event comparison - by callee name, loop by loop - found them different)
+        return "real" if not (oa & ob_) and self._call_names(ea) != self._call_names(eb) and self._strictly_nested(ea, eb) else "unknown"
+
     def _balanced(self, a, b):
         a = [p for p in a if p.exited != "raise"]
         b = [p for p in b if p.exited != "raise"]
@@ -1039,6 +2857,34 @@ class Tracer:
         return True, ""
 
 
+# ---------------------------------------------------------------------------------------------------------------------------
+# AUDIT: every place of this engine that can produce VIOLATED, the assumptions under which the diagnosis is true, how each is checked
+#
+#  B1-balanced-region (Tracer.stmt_paths, If)   (1) the guard differs between ranks: one of its labels is ESTABLISHED (decide /
+#       established): explicit sources only - Get_rank / Get_coords, clocks, os.getpid / id, hash of a string, random in a unit
+#       that never seeds, block geometry read from an object KNOWN to be a layout / grid (self in the classes of the layout and
+#       grid units, program index types, single-assignment locals, the attribute exists on those classes only, naming
+#       convention), iteration order of a set of string literals.  Heuristic labels / UNK -> UNDECIDED.
+#       (2) the alternatives issue different collectives: _recheck_balance / _pair_difference: single-assignment locals and
+#       constant subscripts of displays written out, closures spliced in; different operations / number of operations / an
+#       explicit root or op against none or a literal = real; two different EXPRESSIONS for communicator / root, or calls /
+#       loops that were not expanded on both sides = UNDECIDED.
+#       (3) the event list of a statement is what every rank issues: events inside conditional expressions, later operands of
+#       and / or, comprehensions, lambdas, match statements, exception handlers give B1-conditional-collective /
+#       B1-unmodelled-statement / B1-collective-in-handler UNDECIDED unless the governing test is rank-uniform.
+#  B1-early-return           conditions of the return (pc: enclosing tests, loop, earlier break / continue) ESTABLISHED rank-dependent.
+#  B1-loop-trip-uniform      labels of a while test / of range() arguments / of the LENGTH of the iterable (displays, tables,
+#       lists built by append / comprehension, generator functions: number of yields) ESTABLISHED; when only the labels of the
+#       CONTENT of the iterable are known -> UNDECIDED, and the parameters read there are required uniform WEAKLY.
+#  B1-loop-trip-uniform (break)  pc of a break statement of the loop ESTABLISHED rank-dependent.
+#  B2-root-uniform / B2-op-uniform  the root / op expression is the keyword or the positional argument at mpi4py's position
+#       (star-expanded arguments -> UNDECIDED) and carries an ESTABLISHED label.
+#  B1-arg-uniform            the parameter governs collectives in the callee through an established dependency (required_strong,
+#       propagated), the actual is matched with it exactly (positional / keyword; star-expanded tuples of known fields position
+#       by position; any other unpacking -> inexact_binding -> UNDECIDED) and carries an ESTABLISHED label.
+#  Facts (labels) that callers turn into verdicts: see the AUDIT comments in LabelFlow (attributes by name, unresolved calls,
+#       unbound names, try / match / yield / await, global / nonlocal, call depth, recursion, file-system reads after writes).
+# ---------------------------------------------------------------------------------------------------------------------------
 def run_spmd(chk, prog: Program, units: list[str], b4_ok_funcs=()):
     """Discharge B1-B3 over every collective function of the given units."""
     s = SPMD(prog, chk, units, b4_ok_funcs)
@@ -1053,6 +2899,7 @@ def run_spmd(chk, prog: Program, units: list[str], b4_ok_funcs=()):
         tracers[key] = tr
         # direct collective sites: existence + argument uniformity (B2/B3)
         for c in fi.collective_sites:
+            starred = any(isinstance(a, ast.Starred) for a in c.args) or any(k.arg is None for k in c.keywords)
             sig = coll_sig(c) if isinstance(c.func, ast.Attribute) and c.func.attr in COLLECTIVE_OPS else ("h5", src(c.func), None, None)
             op = sig[0]
             if op in ROOTED:
@@ -1061,20 +2908,23 @@ def run_spmd(chk, prog: Program, units: list[str], b4_ok_funcs=()):
                     root = c.args[ROOT_POS[op]]
                 if root is not None:
                     rl = lf.at.get(root, set())
-                    chk.ob("B2-root-uniform", c, src(c), not nonuniform(rl),
-                           f"root expression `{src(root)}` labels {sorted(rl)}",
-                           file=fi.rel, func=fi.qual, facts={"labels": sorted(rl)})
+                    # AUDIT: the root is the keyword `root` or the positional argument at the position mpi4py gives it for this
+                    # operation (star-expanded arguments: not read); VIOLATED needs an established rank-dependent label
+                    chk.ob("B2-root-uniform", c, src(c), None if starred else decide(rl),
+                           f"root expression `{src(root)}` labels {show(rl)}" + (" (arguments passed by unpacking: not read)" if starred else ""),
+                           file=fi.rel, func=fi.qual, facts={"labels": show(rl)})
                     tr.note_required(rl, f"root of `{src(c)[:60]}`")
             ropn = kwarg(c, "op")
             if ropn is not None:
                 rl = lf.at.get(ropn, set())
-                chk.ob("B2-op-uniform", c, src(c), not nonuniform(rl), f"reduction op `{src(ropn)}` labels {sorted(rl)}",
+                chk.ob("B2-op-uniform", c, src(c), decide(rl), f"reduction op `{src(ropn)}` labels {show(rl)}",
                        file=fi.rel, func=fi.qual, nontrivial=False)
             if op in ("Split",):
                 pass
             chk.ob("B0-collective-site", c, src(c)[:120], True, "collective call site covered by the trace analysis",
                    file=fi.rel, func=fi.qual, nontrivial=False, facts={"sig": list(map(str, sig))})
         fi.required_uniform = tr.required
+        fi.required_strong = set(tr.required_strong)
     # interprocedural: parameters that must be uniform are uniform at every call site
     changed = True
     rounds = 0
@@ -1097,6 +2947,10 @@ def run_spmd(chk, prog: Program, units: list[str], b4_ok_funcs=()):
                             if q != "self" and q not in fi.required_uniform:
                                 fi.required_uniform[q] = f"passed as `{p}` to {callee.qual} ({why})"
                                 changed = True
+                            if q != "self" and p in getattr(callee, "required_strong", set()) and q not in fi.required_strong and \
+                                    c not in lf.inexact_binding:
+                                fi.required_strong.add(q)
+                                changed = True
     for key, fi in s.funcs.items():
         if not fi.is_collective:
             continue
@@ -1109,8 +2963,15 @@ def run_spmd(chk, prog: Program, units: list[str], b4_ok_funcs=()):
                     al = pmap.get(p)
                     if al is None:
                         continue
-                    nu = nonuniform(al)
-                    chk.ob("B1-arg-uniform", c, f"{src(c.func)}(... {p}=...)", not nu,
-                           f"actual for `{p}` of {callee.qual} must be rank-uniform ({why}); labels {sorted(al)}",
-                           file=fi.rel, func=fi.qual, facts={"labels": sorted(al), "param": p})
+                    # AUDIT: `p` governs collectives in the callee (guard / loop bound / root, transitively) and the value bound to it
+                    # at this call (positional / keyword binding read off the call; star-expanded actuals give UNK) carries an
+                    # ESTABLISHED rank-dependent label
+                    verdict = decide(al)
+                    if verdict is False and (p not in getattr(callee, "required_strong", set()) or c in lf.inexact_binding):
+                        verdict = None      # the influence of `p` on the collectives is itself not established (content labels)
+                    chk.ob("B1-arg-uniform", c, f"{src(c.func)}(... {p}=...)", verdict,
+                           f"actual for `{p}` of {callee.qual} must be rank-uniform ({why}); labels {show(al)}" +
+                           ("" if verdict is not None or decide(al) is not False else
+                            "; how the parameter governs the collectives was read off the labels of the content of an iterable: not established"),
+                           file=fi.rel, func=fi.qual, facts={"labels": show(al), "param": p})
     return s, tracers
